@@ -22,7 +22,16 @@ from vf.sim.t3t import T3TModel, Tamper
 
 FAM = "t3t"
 PASSWORD = b"0123456789abcdef"
-COMMAND_BOUND = 5000      # the largest model has < 700 blocks: a legitimate evaluation needs < 2000 commands
+# Command bound of one C08 evaluation.  DESIGN.md section 3 names B = 100000 for all tag types; for Type 3 the tighter
+# value is sound because the number of commands of a terminating evaluation is bounded by the memory of the model: the
+# largest model has < 700 blocks, activation + 2 x (attribute read + ceil(Ln / 16) one-block reads) + has_changed stays
+# below 2000 commands even with Nbr = 1 (the largest number observed is reported as max_t3t_c08_commands_per_eval, ~100
+# in the quick tier).  The bound is enforced by the harness' own BaseException (T3Bound), so that no `except Exception`
+# inside nfcpy can swallow it; SimTagDevice.Bound (an Exception) stays armed behind it at COMMAND_BOUND + 50.
+COMMAND_BOUND = 5000
+# executed source lines inside nfc/tag/tt3*.py per C08 evaluation (a loop that sends no commands is decided on logical
+# progress, not on time); the costliest fault-free evaluation of the quick tier needs < 40000 lines
+C08_STEPS = 1000000
 
 ASSUMPTIONS = [
     "vf.sim.t3t is a faithful FeliCa / FeliCa Lite / Lite-S tag model (conformance self-test replays the literal "
@@ -34,6 +43,12 @@ ASSUMPTIONS = [
     "t3t: format()/dump() document that an error response ends their memory probing; a different result after an "
     "error burst beyond the retry budget is accepted for these two operations only (format returning True: Nbr, Nbw, "
     "Nmaxb not larger than after the fault-free format and not zero, all other attribute fields equal)",
+    "t3t: the second key-less service / second system of the C03 layouts is an ordinary FeliCa random service with block "
+    "memory of its own (service number 1..3, service codes number<<6|09h and |0Bh)",
+    "t3t: history classes - a failed assignment is one where every exchange from command j of the attempt on is lost "
+    "(TimeoutError; command lost or executed and the answer lost) until nfcpy gives up with TagCommandError",
+    "t3t: the harness fixes the authentication challenge by substituting the module attribute nfc.tag.tt3_sony.os; if "
+    "that attribute does not exist the run is INCONCLUSIVE (harness assumption about nfcpy internals)",
 ]
 
 
@@ -55,6 +70,8 @@ def build(layout):
     if k == "generic":
         m = T3TModel.generic(layout["nbr"], layout["nbw"], layout["nmaxb"], extra=layout.get("extra", 2),
                              message=old, rwflag=layout.get("rwflag", 1), ver=layout.get("ver", 0x10), **kw)
+        if "ic" in layout:
+            m.pmm = bytes([m.pmm[0], layout["ic"]]) + m.pmm[2:]       # the reader class follows the IC code (FeliCa Plug)
     elif k == "standard":
         m = T3TModel.standard(layout["nbr"], layout["nbw"], layout["nmaxb"], ic=layout.get("ic", 0x01),
                               other_systems=layout.get("other_systems", []),
@@ -72,6 +89,18 @@ def build(layout):
         m.ndef_system_first = layout.get("ndef_first", True)
     if "idm" in layout:
         m.idm = bytes(layout["idm"])
+    if layout.get("writef") or layout.get("cut_blocks"):
+        # a cut state: an earlier write of the message (cut_salt, cut_len) was interrupted after `cut_blocks` of its data
+        # blocks were programmed; the attribute block still holds the old length and WriteF
+        a = t3_attr.decode(m.get_block(0))
+        mid = mk_msg(layout.get("cut_salt", 3), layout.get("cut_len", 0))
+        mid += bytes(-len(mid) % 16)
+        for i in range(min(layout.get("cut_blocks", 0), len(mid) // 16, a["nmaxb"])):
+            m.set_block(1 + i, mid[16 * i:16 * i + 16])
+        m.set_block(0, t3_attr.encode(a["ver"], a["nbr"], a["nbw"], a["nmaxb"], layout.get("writef", 0), a["rwflag"],
+                                      a["ln"]))
+    for code, number, nblocks in layout.get("aux", []):
+        m.add_aux_service(code, number, nblocks)
     return m
 
 
@@ -109,15 +138,118 @@ class _OsShim(object):
         return getattr(os, name)
 
 
+_NO_OS = object()
+HARNESS_PROBLEMS = []
+
+
 @contextlib.contextmanager
 def fixed_challenge(seed=7):
+    """deterministic challenge for the authentication of nfc.tag.tt3_sony.  Entering / leaving this context never
+    raises: when the module has no attribute `os` to substitute (a harness assumption about nfcpy's internals, not a
+    property of nfcpy) nothing is patched, the problem is noted and guard() / harness_check() make the run INCONCLUSIVE"""
     mod = nfc.tag.tt3_sony
-    old = mod.os
+    old = getattr(mod, "os", _NO_OS)
+    if old is _NO_OS or not hasattr(old, "urandom"):
+        if not HARNESS_PROBLEMS:
+            HARNESS_PROBLEMS.append("nfc.tag.tt3_sony has no module attribute 'os' with urandom(): the authentication "
+                                    "challenge can not be fixed by the harness")
+        yield
+        return
     mod.os = _OsShim(seed)
     try:
         yield
     finally:
         mod.os = old
+
+
+def harness_check(R):
+    for p in HARNESS_PROBLEMS:
+        R.inconc("t3t harness: " + p)
+
+
+def attempt(fn):
+    """-> ("ok", value) | ("exc", exception); harness budgets (BaseException) pass through"""
+    try:
+        return "ok", fn()
+    except Exception as e:      # noqa
+        return "exc", e
+
+
+class T3Bound(BaseException):
+    """command bound of one evaluation exceeded (BaseException: nfcpy can not catch it)"""
+
+
+class StepBudgetExceeded(BaseException):
+    pass
+
+
+class StepBudget(object):
+    """counts executed source lines of nfc.tag.tt3 / nfc.tag.tt3_sony (sys.monitoring LINE events, local to the code
+    objects of these two modules) and raises StepBudgetExceeded into the monitored code when one evaluation exceeds
+    the limit"""
+    _inst = None
+
+    @classmethod
+    def get(cls):
+        if cls._inst is None:
+            cls._inst = cls()
+        return cls._inst
+
+    def __init__(self):
+        import sys
+        import types
+        self.count = 0
+        self.limit = C08_STEPS
+        self.active = False
+        mon = getattr(sys, "monitoring", None)
+        if mon is None:
+            return
+        tool = None
+        for t in (3, 2, 1):
+            try:
+                mon.use_tool_id(t, "vf-t3t-steps")
+                tool = t
+                break
+            except ValueError:
+                continue
+        if tool is None:
+            return
+        seen = set()
+
+        def codes(obj):
+            if isinstance(obj, types.CodeType):
+                if obj not in seen:
+                    seen.add(obj)
+                    for c in obj.co_consts:
+                        codes(c)
+            elif isinstance(obj, types.FunctionType):
+                codes(obj.__code__)
+            elif isinstance(obj, (staticmethod, classmethod)):
+                codes(obj.__func__)
+            elif isinstance(obj, property):
+                for f in (obj.fget, obj.fset, obj.fdel):
+                    if f is not None:
+                        codes(f)
+            elif isinstance(obj, type):
+                for v in vars(obj).values():
+                    codes(v)
+
+        for m in (nfc.tag.tt3, nfc.tag.tt3_sony):
+            for v in vars(m).values():
+                if getattr(v, "__module__", None) == m.__name__:
+                    codes(v)
+
+        def on_line(code, line):
+            self.count += 1
+            if self.count > self.limit:
+                self.count = 0
+                raise StepBudgetExceeded()
+
+        mon.register_callback(tool, mon.events.LINE, on_line)
+        for c in seen:
+            mon.set_local_events(tool, c, mon.events.LINE)
+        self.active = True
+        self.ncode = len(seen)
 
 
 def esc_sig(e):
@@ -150,6 +282,9 @@ def guard(R):
         R.inconc("t3t simulator conformance self-test failed: " + b)
     if not _SELFTEST:
         R.count("t3t_sim_selftest_ok")
+    with fixed_challenge():
+        pass
+    harness_check(R)
 
 
 def classify(o, old, new):
@@ -162,6 +297,130 @@ def classify(o, old, new):
     return "MIXED"
 
 
+def vary_msg(msg, nblocks=1, at=0):
+    """same length, `nblocks` 16-byte blocks (from block index `at`, wrapping) differ in every byte"""
+    out = bytearray(msg)
+    nb = (len(out) + 15) // 16
+    for b in range(min(nblocks, nb)):
+        blk = (at + b * 3) % nb
+        for i in range(16 * blk, min(len(out), 16 * blk + 16)):
+            out[i] ^= 0x5A
+    return bytes(out)
+
+
+# =====================================================================================================
+# history classes: what happened on the SAME tag object / NDEF object before the judged operation
+# =====================================================================================================
+HIST_KINDS = ["second", "retry", "retry2", "format", "cutstate", "cutstate-retry"]
+
+
+def hist_gen(hkind, rng, small=False, sony_share=0.35, auth_share=0.25):
+    """-> (layout, steps).  steps (all on one tag object, in order):
+         ["w", salt, len]                     fault-free assignment
+         ["f", salt, len, j, flavour]         failed assignment: every exchange from command j of the attempt on is lost
+         ["fmt", version, wipe]               tag.format()
+       layouts: generic / Standard (Nbr, Nbw free, 2-byte and - not small - 3-byte block numbers), Lite, Lite-S (plain,
+       authenticated); `cutstate`: the start image is an interrupted write (WriteF = 0Fh, first data blocks of another
+       message programmed)"""
+    if rng.random() < sony_share:
+        lay = {"kind": rng.choice(["lite", "lites"]), "nbr": rng.randrange(1, 5), "nbw": 1,
+               "nmaxb": rng.randrange(2, 8 if small else 14)}
+        if rng.random() < auth_share:
+            lay["auth"] = True
+            lay["password"] = PASSWORD
+    else:
+        nbw = rng.choice([1, 1, 2, 3, 5, 13]) if small else rng.randrange(1, 14)
+        nmaxb = rng.choice([2, 3, nbw + 1, 2 * nbw + 1, rng.randrange(2, 12)]) if small else rng.choice(
+            [2, nbw, nbw + 1, 2 * nbw + 1, 17, rng.randrange(2, 40), 256, 300])
+        if nmaxb > 255:
+            nbw = min(nbw, 12)
+        lay = {"kind": rng.choice(["generic", "generic", "standard"]), "nbr": rng.randrange(1, 16), "nbw": nbw,
+               "nmaxb": max(2, nmaxb), "extra": rng.choice([0, 1, 2])}
+        if lay["kind"] == "standard":
+            lay["ic"] = rng.choice([0x01, 0x0D, 0x20, 0x06])
+    cap = lay["nmaxb"] * 16
+    pick = [x for x in (0, 1, 16, 17, 255, 256, lay["nbw"] * 16, lay["nbw"] * 16 + 1, cap - 16, cap - 1, cap,
+                        rng.randrange(cap + 1), rng.randrange(cap + 1)) if 0 <= x <= cap]
+    lay["old_len"] = rng.choice(pick)
+    lay["old_salt"] = rng.randrange(1, 100)
+    lay["sensf_rd"] = rng.random() < 0.8
+    steps = []
+    w = lambda: ["w", 100 + rng.randrange(60), rng.choice(pick)]                                   # noqa: E731
+    f = lambda: ["f", 160 + rng.randrange(40), rng.choice([x for x in pick if x > 0] or [1]),     # noqa: E731
+                 rng.choice([0, 1, 1, 2, 2, 3, 4, rng.randrange(0, 8)]), rng.choice(["cmd_lost", "cmd_lost", "rsp_lost"])]
+    if hkind == "second":
+        steps = [w()]
+    elif hkind == "retry":
+        steps = [f()]
+    elif hkind == "retry2":
+        steps = [f(), f()]
+    elif hkind == "format":
+        if lay.get("auth"):
+            del lay["auth"]
+        steps = [["fmt", rng.choice([0x10, 0x10, 0x11]), rng.choice([None, None, 0x00, 0xA5])]]
+    if hkind.startswith("cutstate"):
+        lay["writef"] = 0x0F
+        lay["cut_salt"], lay["cut_len"] = 200 + rng.randrange(40), rng.choice([x for x in pick if x > 0] or [1])
+        lay["cut_blocks"] = rng.randrange(0, (lay["cut_len"] + 15) // 16 + 1)
+        if hkind == "cutstate-retry":
+            steps = [f()]
+    return lay, steps
+
+
+def arm_fail(dev, j, flavour):
+    start = dev.n_commands
+    hit = {"n": 0}
+
+    def script(n, data):
+        if n - start >= j:
+            hit["n"] += 1
+            return (flavour, nfc.clf.TimeoutError)
+        return None
+    dev.script = script
+    return hit
+
+
+def hist_play(model, lay, steps, R, prefix):
+    """fresh activation, tag.ndef, then the steps on that one tag object -> dict(clf, dev, tag, nd) or None when the
+    history could not be played as described (counted, never judged here: the judged operation follows)"""
+    with fixed_challenge(), quiet():
+        st, v = attempt(lambda: open_tag(model, lay))
+        if st != "ok" or v[2] is None:
+            R.count(prefix + "_setup_failed")
+            return None
+        clf, dev, tag = v
+        st, nd = attempt(lambda: tag.ndef)
+        if st != "ok" or nd is None:
+            R.count(prefix + "_setup_failed")
+            return None
+        for step in steps:
+            if step[0] == "w":
+                st, e = attempt(lambda: setattr(nd, "octets", mk_msg(step[1], step[2])))
+                if st != "ok":
+                    R.count(prefix + "_history_write_raised")
+                    return None
+            elif step[0] == "f":
+                hit = arm_fail(dev, step[3], step[4])
+                st, e = attempt(lambda: setattr(nd, "octets", mk_msg(step[1], step[2])))
+                dev.script = None
+                if st == "ok" or not hit["n"]:
+                    R.count(prefix + "_fault_behind_end_of_attempt")
+                    return None
+                if not isinstance(e, nfc.tag.TagCommandError):
+                    R.count(prefix + "_attempt_other_exception")          # judged by C16
+                    return None
+            else:
+                st, r = attempt(lambda: tag.format(version=step[1], wipe=step[2]))
+                if st != "ok" or r is not True:
+                    R.count(prefix + "_format_failed")
+                    return None
+                st, nd = attempt(lambda: tag.ndef)
+                if st != "ok" or nd is None:
+                    R.count(prefix + "_no_ndef_after_format")
+                    return None
+    return {"clf": clf, "dev": dev, "tag": tag, "nd": nd}
+
+
 # =====================================================================================================
 # C01 - round trip, capacity
 # =====================================================================================================
@@ -171,16 +430,38 @@ RULE_C01 = ("layouts: generic/Standard T3T with every (Nbr 1..15, Nbw 1..13) pai
             "Lite-S MAC writes). per layout a chain of writes with lengths {0,1,15,16,17,253..256,Nbw*16-1..+1,"
             "capacity-1,capacity,random} (every length for capacity <= 48) each followed by a fresh activation and "
             "by the reference reader on raw memory, then capacity+1. distinct by (layout,length); non-trivial if the "
-            "read-back comparison or the oversize check was reached")
+            "read-back comparison or the oversize check was reached.  Correlated contents (a third of the layouts): the "
+            "message just written once more (identical), then with one and with two 16-byte blocks changed.  History "
+            "classes (part hist): the judged fault-free assignment follows, on the SAME tag / NDEF object, {a completed "
+            "assignment; 1 or 2 assignments that failed with TagCommandError because every exchange from command j on "
+            "was lost (command lost / executed but answer lost), final message the failed one, a variation of it (1-2 "
+            "blocks differ) or another one; format() with re-probed Nbr / Nbw / Nmaxb; a start image that is an "
+            "interrupted write (WriteF = 0Fh, part of another message programmed), with and without a failed attempt}: "
+            "when the judged assignment returns normally the reference reader and a fresh activation read exactly the "
+            "octets assigned last, capacity + 1 is rejected without a command (an assignment that raises there is "
+            "counted, not judged: whether the promise extends to an object that saw a failure is left open).  Observed "
+            "on the wire and required: Write commands with every block count 1..13, Read commands with 1..15, 3-byte "
+            "block list elements")
 REQUIRED_C01 = ["t3t_roundtrips", "t3t_refreader_agree", "t3t_oversize_rejected", "t3t_capacity_checked",
-                "t3t_len_capacity", "t3t_len_zero"]
+                "t3t_len_capacity", "t3t_len_zero", "t3t_len_254_255", "t3t_3byte_blocknumbers", "t3t_readonly_layouts",
+                "t3t_pers_generic", "t3t_pers_standard", "t3t_pers_lite", "t3t_pers_lites", "t3t_pers_lite+auth",
+                "t3t_pers_lites+auth", "t3t_c01_correlated_identical", "t3t_c01_correlated_one_block_changed",
+                "t3t_c01_correlated_two_blocks_changed", "t3t_c01_3byte_block_element_on_wire",
+                "t3t_c01_hist_cases", "t3t_c01_hist_roundtrips", "t3t_c01_hist_oversize_rejected",
+                "t3t_c01_hist_retry_tag_changed_by_failed_attempt", "t3t_c01_hist_retry_tag_unchanged_by_failed_attempt",
+                "t3t_c01_hist_retry_rsp_lost", "t3t_c01_hist_retry_cmd_lost", "t3t_c01_hist_final_same_as_failed",
+                "t3t_c01_hist_final_variation_of_failed", "t3t_c01_hist_final_other",
+                "t3t_c01_hist_format_nmaxb_grown", "t3t_c01_hist_auth"] + [
+    "t3t_c01_hist_kind_" + _k for _k in ("second", "retry", "retry2", "format", "cutstate", "cutstate-retry")] + [
+    "t3t_c01_write_cmd_blocks_%d" % _n for _n in range(1, 14)] + [
+    "t3t_c01_read_cmd_blocks_%d" % _n for _n in range(1, 16)]
 
 
 def plan_c01(tier):
     if tier == "quick":
         return [{"part": "grid", "n": 975}, {"part": "big", "n": 300}, {"part": "sony", "n": 416},
-                {"part": "sony_auth", "n": 30}]
-    out = []
+                {"part": "sony_auth", "n": 30}, {"part": "hist", "n": 900}]
+    out = [{"part": "hist", "n": 6000, "sub": i, "timeout": 1500} for i in range(3)]
     for i in range(4):
         out.append({"part": "grid", "n": 4000, "sub": i, "timeout": 1500})
     for i in range(4):
@@ -240,17 +521,129 @@ def c01_gen_layout(part, i, rng):
 
 def run_c01(desc, R, rng):
     guard(R)
+    if desc["part"] == "hist":
+        for i in range(desc["n"]):
+            hkind = HIST_KINDS[i % len(HIST_KINDS)]
+            lay, steps = hist_gen(hkind, rng)
+            cap = lay["nmaxb"] * 16
+            final = rng.choice(["same", "variation", "other"]) if steps and steps[-1][0] == "f" else "other"
+            case = {"family": FAM, "hist": hkind, "layout": lay, "steps": steps, "final": final,
+                    "final_salt": 60 + rng.randrange(40),
+                    "final_len": rng.choice([0, 1, 17, 255, 256, lay["nbw"] * 16 + 1, cap - 1, cap, cap, rng.randrange(cap + 1)]),
+                    "vary": [rng.choice([1, 2]), rng.randrange(0, 20)]}
+            case["final_len"] = max(0, min(case["final_len"], cap))
+            c01_hist_case(case, R)
+        return
     for i in range(desc["n"]):
         lay = c01_gen_layout(desc["part"], i + desc.get("sub", 0) * 7919, rng)
         lengths = c01_lengths(lay["nmaxb"] * 16, lay["nbw"], rng)
         if lay.get("auth"):
             lengths = lengths[:6] + [lay["nmaxb"] * 16]
         case = {"family": FAM, "layout": lay, "lengths": lengths, "salt": rng.randrange(1, 250)}
+        if i % 3 == 0 and not lay.get("auth"):
+            case["correlated"] = rng.randrange(0, 40)
         c01_case(case, R)
 
 
 def replay_c01(case, R):
-    c01_case(case, R)
+    if "hist" in case:
+        c01_hist_case(case, R)
+    else:
+        c01_case(case, R)
+
+
+def c01_wire_counters(model, c0, R, prefix="t3t_c01"):
+    """what the write / read commands of the last operation looked like on the wire (tag model's command log)"""
+    for code, numbers, status in model.cmd_log[c0:]:
+        if status == (0, 0) and numbers and code in (0x06, 0x08):
+            R.count("%s_%s_cmd_blocks_%d" % (prefix, "write" if code == 0x08 else "read", len(numbers)))
+            if max(numbers) > 255:
+                R.count(prefix + "_3byte_block_element_on_wire")
+
+
+def c01_hist_case(case, R):
+    lay, steps, hkind = case["layout"], case["steps"], case["hist"]
+    model = build(lay)
+    img0 = model.image()
+    sig = "t3t/c01/hist/%s/" % hkind
+
+    def viol(tail, what):
+        R.violation(sig + tail, "%s (layout %r, history %r)" % (what, lkey(lay), steps), case)
+
+    key = [lkey(lay), lay.get("writef"), lay.get("cut_blocks"), steps, case["final"], case["final_len"]]
+    h = hist_play(model, lay, steps, R, "t3t_c01_hist")
+    if h is None:
+        R.case(key, nontrivial=False)
+        return
+    nd, dev = h["nd"], h["dev"]
+    if case["final"] in ("same", "variation"):
+        final = mk_msg(steps[-1][1], steps[-1][2])
+        if case["final"] == "variation":
+            final = vary_msg(final, case["vary"][0], case["vary"][1])
+    else:
+        final = mk_msg(case["final_salt"], case["final_len"])
+    a0 = t3_attr.decode(model.get_block(0))
+    changed_by_history = model.image() != img0
+    with fixed_challenge():
+        st, cap = attempt(lambda: nd.capacity)
+        if st == "ok" and cap > a0["nmaxb"] * 16:
+            viol("capacity>layout", "capacity %d exceeds Nmaxb*16 = %d after the history" % (cap, a0["nmaxb"] * 16))
+        if st == "ok" and len(final) > cap:
+            final = final[:cap]
+        c0 = len(model.cmd_log)
+        st, e = attempt(lambda: setattr(nd, "octets", final))
+    R.count("t3t_c01_hist_cases")
+    if st != "ok":
+        # observed, not judged (see RULE)
+        R.count("t3t_c01_hist_final_raised")
+        R.seen("t3t_c01_hist_final_exceptions", "%s/%s" % (hkind, exc_sig(e)))
+        R.case(key, nontrivial=False)
+        return
+    R.case(key)
+    c01_wire_counters(model, c0, R)
+    R.count("t3t_c01_hist_kind_" + hkind)
+    R.count("t3t_c01_hist_final_" + {"same": "same_as_failed", "variation": "variation_of_failed"}.get(case["final"], "other"))
+    if lay.get("auth"):
+        R.count("t3t_c01_hist_auth")
+    if steps and steps[-1][0] == "f":
+        R.count("t3t_c01_hist_retry_tag_%s_by_failed_attempt" % ("changed" if changed_by_history else "unchanged"))
+        R.count("t3t_c01_hist_retry_" + steps[-1][4])
+    if steps and steps[0][0] == "fmt" and a0["nmaxb"] > lay["nmaxb"]:
+        R.count("t3t_c01_hist_format_nmaxb_grown")
+    where = "octets = <%d bytes> returned normally" % len(final)
+    stt, ref, attr = t3_attr.ref_read(model.get_block)
+    ok = True
+    if stt != "ok" or ref != final:
+        ok = False
+        viol("reference-reader", "%s, but the reference reader on raw memory sees %s" % (
+            where, stt if stt != "ok" else "%d bytes, first difference at %d" % (len(ref), _first_diff(ref, final))))
+    if attr and any(attr[f] != a0[f] for f in ("ver", "nbr", "nbw", "nmaxb", "rwflag", "rfu")):
+        ok = False
+        viol("attribute-changed", "%s and changed Ver/Nbr/Nbw/Nmaxb/RWFlag: %r -> %r" % (
+            where, {f: a0[f] for f in ("ver", "nbr", "nbw", "nmaxb", "rwflag")},
+            {f: attr[f] for f in ("ver", "nbr", "nbw", "nmaxb", "rwflag")}))
+    with fixed_challenge():
+        st, got = attempt(lambda: (lambda t: None if t is None or t.ndef is None else t.ndef.octets)(tagdevice.activate(model)[2]))
+    if st != "ok":
+        ok = False
+        viol("fresh-reader-raises/" + exc_sig(got), "%s, a fresh activation raised %s" % (where, exc_text(got)[-200:]))
+    elif got != final:
+        ok = False
+        viol("fresh-reader", "%s, but a fresh activation reads %s" % (
+            where, "no NDEF" if got is None else "%d bytes, first difference at %d" % (len(got), _first_diff(got, final))))
+    if ok:
+        R.count("t3t_c01_hist_roundtrips")
+    # capacity + 1 on the same object
+    n0, before = dev.n_commands, model.image()
+    st, e = attempt(lambda: setattr(nd, "octets", mk_msg(case["final_salt"], nd.capacity + 1)))
+    if st == "ok":
+        viol("oversize-accepted", "capacity+1 = %d bytes accepted" % (nd.capacity + 1))
+    elif not isinstance(e, ValueError):
+        viol("oversize-raises/" + exc_sig(e), "capacity+1 raised %r instead of ValueError" % e)
+    elif dev.n_commands != n0 or model.image() != before:
+        viol("oversize-commands", "%d command(s) sent before rejecting capacity+1" % (dev.n_commands - n0))
+    else:
+        R.count("t3t_c01_hist_oversize_rejected")
 
 
 def c01_case(case, R):
@@ -266,9 +659,19 @@ def c01_case(case, R):
         R.violation("t3t/c01/" + sig, "%s (layout %r)" % (what, lkey(lay)), c)
 
     # ---- capacity and pre-existing content
-    clf, dev, tag = open_tag(model, lay)
+    with fixed_challenge():
+        st, v = attempt(lambda: open_tag(model, lay))
+    if st != "ok" or v[2] is None:
+        if st == "exc" and isinstance(v, RuntimeError) and str(v).startswith("setup:"):
+            R.inconc("t3t C01: %s" % v)
+            return
+        viol("activation-fails" + ("/" + exc_sig(v) if st == "exc" else ""), "activation of a well-formed layout %s" % (
+            "raised " + exc_text(v)[-300:] if st == "exc" else "gave no tag"))
+        return
+    clf, dev, tag = v
     try:
-        nd = tag.ndef
+        with fixed_challenge():
+            nd = tag.ndef
     except Exception as e:
         viol("ndef-raises/" + exc_sig(e), "tag.ndef raised on a well-formed layout: " + exc_text(e)[-300:])
         return
@@ -295,28 +698,47 @@ def c01_case(case, R):
         except AttributeError:
             if dev.n_commands != n0:
                 viol("ro-write-commands", "commands were sent for a write on a read-only layout")
+        except Exception as e:
+            viol("ro-write-raises/" + exc_sig(e), "write on a read-only layout raised %r instead of AttributeError" % e)
         return
     cap = nd.capacity
 
     # ---- chain of writes, each from a fresh activation, each verified by a fresh activation + reference reader
-    for j, L in enumerate(case["lengths"]):
-        if L > cap:
-            continue
-        msg = mk_msg(salt + j, L)
-        clf, dev, tag = open_tag(model, lay)
-        nd = tag.ndef
-        if nd is None or not nd.is_writeable:
+    chain = [(j, mk_msg(salt + j, L), None) for j, L in enumerate(case["lengths"]) if L <= cap]
+    if "correlated" in case and cap >= 16:
+        # correlated contents: the message written last once more, then with one / two blocks changed (same length)
+        L = max(16, min(cap, 16 * (1 + case["correlated"] % max(1, cap // 16)) + case["correlated"] % 16))
+        base = mk_msg(salt + 77, L)
+        j0 = len(case["lengths"])
+        chain += [(j0, base, None), (j0 + 1, base, "identical"), (j0 + 2, vary_msg(base, 1, case["correlated"]), "one_block_changed"),
+                  (j0 + 3, vary_msg(base, 2, case["correlated"] + 1), "two_blocks_changed")]
+    for j, msg, corr in chain:
+        L = len(msg)
+        with fixed_challenge():
+            st, v = attempt(lambda: open_tag(model, lay))
+            err = v if st != "ok" else None
+            if st == "ok" and v[2] is not None:
+                clf, dev, tag = v
+                st, nd = attempt(lambda: tag.ndef)
+                err = nd if st != "ok" else None
+        if err is not None:
+            viol("reactivation-raises/" + exc_sig(err), "activation / tag.ndef before write #%d raised %s" % (
+                j, exc_text(err)[-200:]), step=j)
+            return
+        if v[2] is None or nd is None or not nd.is_writeable:
             viol("not-writeable", "ndef None / not writeable before write #%d" % j, step=j)
             return
+        c0 = len(model.cmd_log)
         try:
-            nd.octets = msg
+            with fixed_challenge():
+                nd.octets = msg
         except Exception as e:
             viol("write-raises/" + exc_sig(e), "octets = <%d bytes> raised: %s" % (L, exc_text(e)[-300:]), step=j)
             return
-        key = lkey(lay) + [L]
-        clf2, dev2, tag2 = tagdevice.activate(model)
+        key = lkey(lay) + [L, corr]
         try:
-            nd2 = tag2.ndef
+            clf2, dev2, tag2 = tagdevice.activate(model)
+            nd2 = tag2.ndef if tag2 is not None else None
             got = None if nd2 is None else nd2.octets
         except Exception as e:
             viol("readback-raises/" + exc_sig(e), "fresh read raised: " + exc_text(e)[-300:], step=j)
@@ -325,6 +747,9 @@ def c01_case(case, R):
         R.case(key)
         R.count("t3t_roundtrips")
         R.count("t3t_pers_" + pers)
+        c01_wire_counters(model, c0, R)
+        if corr:
+            R.count("t3t_c01_correlated_" + corr)
         if L == 0:
             R.count("t3t_len_zero")
         if L in (254, 255):
@@ -350,8 +775,14 @@ def c01_case(case, R):
         R.sample({"layout": lkey(lay), "lengths": case["lengths"][:8]})
 
     # ---- oversize
-    clf, dev, tag = open_tag(model, lay)
-    nd = tag.ndef
+    with fixed_challenge():
+        st, v = attempt(lambda: open_tag(model, lay))
+        if st == "ok" and v[2] is not None:
+            clf, dev, tag = v
+            st, nd = attempt(lambda: tag.ndef)
+    if st != "ok" or v[2] is None or nd is None:
+        viol("not-writeable", "activation / tag.ndef failed before the capacity+1 assignment")
+        return
     before = model.image()
     n0 = dev.n_commands
     R.case(lkey(lay) + ["oversize"])
@@ -381,15 +812,31 @@ RULE_C02 = ("writes: generic/Standard layouts (Nbw 1..13, Nmaxb up to 300) and F
             "authenticated) with old/new lengths around 0, 254/255/256, Nbw*16 (one command / many commands) and "
             "capacity; for each write the uninterrupted run gives n state changing commands and EVERY k in 0..n is "
             "executed (field lost right after the k-th programming command), then judged by a fresh nfcpy reader and "
-            "by the reference reader. distinct by (layout, old, new, k)")
+            "by the reference reader. distinct by (layout, old, new, k).  Correlated contents (a fifth of the writes): new "
+            "message identical to the old one / same length with one or two 16-byte blocks changed.  History classes (part "
+            "hist): the write that is cut at EVERY k follows, on the same tag / NDEF object, {a completed assignment; 1 or 2 "
+            "failed assignments (exchanges lost from command j on); format() with re-probed Nbr/Nbw/Nmaxb; a start image "
+            "that is itself an interrupted write (WriteF = 0Fh, part of a third message programmed), with and without a "
+            "failed attempt}; accepted outcomes: no NDEF, not readable, empty, the complete new message, the message "
+            "that was readable before the cut write (reference reader on the memory after the history)")
 REQUIRED_C02 = ["t3t_cut_runs", "t3t_cut_outcome_old", "t3t_cut_outcome_new", "t3t_cut_outcome_not_readable",
-                "t3t_cut_writes"]
+                "t3t_cut_writes", "t3t_cut_across_255", "t3t_cut_multi_command_writes", "t3t_cut_3byte_block_numbers",
+                "t3t_cut_pers_generic", "t3t_cut_pers_standard", "t3t_cut_pers_lite", "t3t_cut_pers_lites",
+                "t3t_cut_pers_lite+auth", "t3t_cut_pers_lites+auth", "t3t_cut_correlated_identical",
+                "t3t_cut_correlated_one_block_changed", "t3t_cut_correlated_two_blocks_changed",
+                "t3t_cut_hist_writes", "t3t_cut_hist_runs", "t3t_cut_hist_outcome_new", "t3t_cut_hist_outcome_not_readable",
+                "t3t_cut_hist_outcome_old", "t3t_cut_hist_state_before_not_readable", "t3t_cut_hist_state_before_readable",
+                "t3t_cut_hist_auth", "t3t_cut_hist_final_same", "t3t_cut_hist_final_variation", "t3t_cut_hist_final_other"] + [
+                    "t3t_cut_hist_kind_" + _k for _k in (
+                    "second", "retry", "retry2", "format", "cutstate", "cutstate-retry")]
 
 
 def plan_c02(tier):
     if tier == "quick":
-        return [{"part": "generic", "n": 1500}, {"part": "generic2", "n": 700}, {"part": "sony", "n": 180}]
+        return [{"part": "generic", "n": 1500}, {"part": "generic2", "n": 700}, {"part": "sony", "n": 180},
+                {"part": "hist", "n": 300}]
     out = [{"part": "generic", "n": 8000, "sub": i, "timeout": 1500} for i in range(4)]
+    out += [{"part": "hist", "n": 2500, "sub": i, "timeout": 1500} for i in range(3)]
     out += [{"part": "generic2", "n": 3500, "sub": i, "timeout": 1500} for i in range(5)]
     out += [{"part": "sony", "n": 800, "sub": i, "timeout": 1500} for i in range(6)]
     return out
@@ -419,33 +866,159 @@ def c02_gen(part, i, rng):
     lay["old_salt"] = rng.randrange(1, 120)
     lay["sensf_rd"] = rng.random() < 0.8
     new_len = rng.choice(pick)
-    return {"family": FAM, "layout": lay, "new_len": new_len, "new_salt": 120 + rng.randrange(1, 120)}
+    case = {"family": FAM, "layout": lay, "new_len": new_len, "new_salt": 120 + rng.randrange(1, 120)}
+    if i % 5 == 4 and lay["old_len"] >= 16:
+        # correlated contents: 0 = identical, 1 / 2 = that many blocks differ (same length)
+        case["correlated"] = [rng.choice([0, 1, 2]), rng.randrange(0, 40)]
+        case["new_len"] = lay["old_len"]
+    return case
+
+
+def c02_new(case, old):
+    if "correlated" in case:
+        return old if case["correlated"][0] == 0 else vary_msg(old, case["correlated"][0], case["correlated"][1])
+    return mk_msg(case["new_salt"], case["new_len"])
 
 
 def run_c02(desc, R, rng):
     guard(R)
+    if desc["part"] == "hist":
+        for i in range(desc["n"]):
+            hkind = HIST_KINDS[i % len(HIST_KINDS)]
+            lay, steps = hist_gen(hkind, rng, small=True, auth_share=0.15 if desc.get("tier") == "quick" else 0.3)
+            cap = lay["nmaxb"] * 16
+            case = {"family": FAM, "hist": hkind, "layout": lay, "steps": steps, "new_salt": 60 + rng.randrange(40),
+                    "new_len": max(0, min(cap, rng.choice([0, 1, 17, lay["nbw"] * 16, lay["nbw"] * 16 + 1, cap - 1, cap, cap,
+                                                           rng.randrange(cap + 1)])))}
+            if steps and steps[-1][0] in ("f", "w"):
+                # the cut write repeats the last (failed / completed) assignment, or a variation of it (1-2 blocks differ)
+                case["final"] = rng.choice(["same", "variation", "other"])
+                case["vary"] = [rng.choice([1, 2]), rng.randrange(0, 20)]
+            c02_hist_case(case, R)
+        return
     for i in range(desc["n"]):
         case = c02_gen(desc["part"], i, rng)
         c02_case(case, R)
 
 
 def replay_c02(case, R):
-    c02_case(case, R, only_k=case.get("k"))
+    if "hist" in case:
+        c02_hist_case(case, R, only_k=case.get("k"))
+    else:
+        c02_case(case, R, only_k=case.get("k"))
+
+
+def c02_hist_case(case, R, only_k=None):
+    lay, steps, hkind = case["layout"], case["steps"], case["hist"]
+    new = mk_msg(case["new_salt"], case["new_len"])
+    if case.get("final") in ("same", "variation"):
+        new = mk_msg(steps[-1][1], steps[-1][2])
+        if case["final"] == "variation":
+            new = vary_msg(new, case["vary"][0], case["vary"][1])
+    model = build(lay)
+    img0 = model.image()
+    key0 = [lkey(lay), lay.get("writef"), lay.get("cut_blocks"), steps, case["new_salt"], case["new_len"], case.get("final")]
+    # ---- uninterrupted run: state before the judged write, number of programming commands of the judged write
+    h = hist_play(model, lay, steps, R, "t3t_cut_hist")
+    if h is None:
+        R.case(key0, nontrivial=False)
+        return
+    st0, before, attr0 = t3_attr.ref_read(model.get_block)
+    if attr0 is not None and len(new) > attr0["nmaxb"] * 16:
+        new = new[:attr0["nmaxb"] * 16]
+    s0 = h["dev"].state_changes
+    with fixed_challenge():
+        st, e = attempt(lambda: setattr(h["nd"], "octets", new))
+    if st != "ok":
+        R.count("t3t_cut_hist_final_raised")             # observed, judged by C01 / C16
+        R.seen("t3t_cut_hist_final_exceptions", "%s/%s" % (hkind, exc_sig(e)))
+        R.case(key0, nontrivial=False)
+        return
+    n = h["dev"].state_changes - s0
+    R.count("t3t_cut_hist_writes")
+    R.count("t3t_cut_hist_final_" + case.get("final", "other"))
+    R.count("t3t_cut_hist_kind_" + hkind)
+    R.count("t3t_cut_hist_state_before_" + ("readable" if st0 == "ok" else "not_readable"))
+    if lay.get("auth"):
+        R.count("t3t_cut_hist_auth")
+    R.max("t3t_cut_hist_points_per_write", n)
+    for k in range(0, n + 1):
+        if only_k is not None and k != only_k:
+            continue
+        model.restore(img0)
+        h = hist_play(model, lay, steps, R, "t3t_cut_hist_replay")
+        if h is None:
+            R.inconc("t3t C02: the history of a case could not be played a second time (harness determinism)")
+            return
+        h["dev"].arm_cut(k)
+        with fixed_challenge():
+            attempt(lambda: setattr(h["nd"], "octets", new))
+        R.count("t3t_cut_hist_runs")
+        R.case(key0 + [k])
+        wcase = dict(case)
+        wcase["k"] = k
+        st, v = attempt(lambda: tagdevice.activate(model))
+        if st == "ok":
+            st, v = attempt(lambda: (lambda nd2: "none" if nd2 is None else "not_readable" if not nd2.is_readable else
+                                     bytes(nd2.octets))(v[2].ndef if v[2] is not None else None))
+        if st != "ok":
+            R.count("t3t_cut_reader_exception")
+            R.inconc("t3t C02: fresh reader raised %s after cut %d" % (exc_sig(v), k))
+            continue
+        out = v if isinstance(v, str) else "new" if v == new else "old" if st0 == "ok" and v == before else \
+            "empty" if v == b"" else "MIXED"
+        R.count("t3t_cut_hist_outcome_" + out.lower())
+        if out == "MIXED":
+            R.violation("t3t/cut/hist/%s/readable-mixture" % hkind,
+                        "history %r, then a write of %d bytes cut after %d of %d programming commands: a fresh reader sees %d "
+                        "readable bytes that are neither the message readable before (%s) nor the new one; layout %r" % (
+                            steps, len(new), k, n, len(v), "%d bytes" % len(before) if st0 == "ok" else "none, " + st0,
+                            lkey(lay)), wcase)
+        stt, ref, attr = t3_attr.ref_read(model.get_block)
+        rout = stt if stt != "ok" else "new" if ref == new else "old" if st0 == "ok" and ref == before else \
+            "empty" if ref == b"" else "MIXED"
+        if rout == "MIXED":
+            R.violation("t3t/cut/hist/%s/ref-readable-mixture" % hkind,
+                        "history %r, then a write of %d bytes cut after %d of %d programming commands: memory holds a committed "
+                        "message (Ln=%d, WriteF=0) that is neither the one readable before nor the new one; layout %r" % (
+                            steps, len(new), k, n, attr["ln"], lkey(lay)), wcase)
+        if k == n and rout != "new":
+            R.violation("t3t/cut/hist/%s/complete-not-new" % hkind,
+                        "all %d programming commands applied but memory state is %s" % (n, rout), wcase)
 
 
 def c02_case(case, R, only_k=None):
     lay = case["layout"]
     old = mk_msg(lay.get("old_salt", 1), lay.get("old_len", 0))
-    new = mk_msg(case["new_salt"], case["new_len"])
+    new = c02_new(case, old)
     model = build(lay)
     img = model.image()
-    with fixed_challenge():
+    box = {}
+
+    def reference():
         clf, dev, tag = open_tag(model, lay)
         nd = tag.ndef
-        s0 = dev.state_changes
+        box["s0"], box["dev"] = dev.state_changes, dev
         nd.octets = new
-        n = dev.state_changes - s0
+    with fixed_challenge():
+        st, e = attempt(reference)
+    if st != "ok":
+        if isinstance(e, RuntimeError) and str(e).startswith("setup:"):
+            R.inconc("t3t C02: %s" % e)
+        else:
+            # the uninterrupted write of a well-formed layout fails: that is C01's verdict, here it is a signed escape
+            R.violation("t3t/cut/uninterrupted-write-raises/" + exc_sig(e),
+                        "the uninterrupted reference write of %d bytes raised %s; layout %r" % (
+                            len(new), exc_text(e)[-200:], lkey(lay)), dict(case, k=None))
+        R.case(lkey(lay) + [case["new_salt"], case["new_len"], "reference"], nontrivial=False)
+        return
+    n = box["dev"].state_changes - box["s0"]
     R.count("t3t_cut_writes")
+    R.count("t3t_cut_pers_" + lay["kind"] + ("+auth" if lay.get("auth") else ""))
+    if "correlated" in case:
+        R.count("t3t_cut_correlated_" + ("identical", "one_block_changed", "two_blocks_changed")[case["correlated"][0]])
+    if lay["nmaxb"] > 255 and len(new) > 255 * 16:
+        R.count("t3t_cut_3byte_block_numbers")
     R.max("t3t_cut_points_per_write", n)
     if len(new) >= 255 > len(old) or len(old) >= 255 > len(new):
         R.count("t3t_cut_across_255")
@@ -456,8 +1029,11 @@ def c02_case(case, R, only_k=None):
             continue
         model.restore(img)
         with fixed_challenge():
-            clf, dev, tag = open_tag(model, lay)
-            nd = tag.ndef
+            st, v = attempt(lambda: (lambda t: (t[1], t[2].ndef))(open_tag(model, lay)))
+            if st != "ok" or v[1] is None:
+                R.inconc("t3t C02: the set-up of a cut run failed although the reference run worked (harness determinism)")
+                return
+            dev, nd = v
             dev.arm_cut(k)
             completed = True
             try:
@@ -465,7 +1041,7 @@ def c02_case(case, R, only_k=None):
             except Exception:
                 completed = False
         R.count("t3t_cut_runs")
-        R.case(lkey(lay) + [lay.get("old_salt"), case["new_salt"], case["new_len"], k])
+        R.case(lkey(lay) + [lay.get("old_salt"), case["new_salt"], case["new_len"], case.get("correlated"), k])
         wcase = dict(case)
         wcase["k"] = k
         # fresh nfcpy reader
@@ -514,15 +1090,34 @@ RULE_C03 = ("operations: ndef.octets= (all boundary lengths incl. capacity) on g
             "Lite, Lite-S with MC variants (all RW, trailing blocks RO, REG RO, NDEF flag off, system blocks locked). "
             "oracle: blocks changed and blocks addressed by every Write Without Encryption command are a subset of the "
             "attribute block + data blocks 1..Nmaxb (+ MC 88h byte 3 for Lite format, + WCNT/MAC_A for Lite-S MAC "
-            "writes). distinct by (layout, operation)")
+            "writes). distinct by (layout, operation).  ndef.octets= additionally: Ver, Nbr, Nbw, Nmaxb, RFU and RWFlag of the "
+            "attribute block are the same before and after, and in the data of EVERY Write command that addresses block "
+            "0 (only Ln, WriteF and the checksum belong to the message).  Generic / Standard layouts carry a second "
+            "key-less service (own memory, service number 1..3) in the NDEF system and, Standard, a service with memory in "
+            "a second system: their blocks are never in the allowed set, so a Write aimed at another service / system is "
+            "flagged also for format(), whose allowed set is every block of the NDEF services.  Correlated contents (same "
+            "message again, 1 / 2 blocks changed).  History classes (part hist): the judged operation (assignment, or "
+            "format) follows, on the same tag object, {a completed assignment; 1-2 failed assignments; format() with "
+            "re-probed Nmaxb; a start image that is an interrupted write}; the allowed set is computed from the attribute "
+            "block as it is in memory right before the judged operation")
 REQUIRED_C03 = ["t3t_c03_ops", "t3t_c03_write_cmds_inspected", "t3t_c03_blocks_diffed", "t3t_c03_op_write",
-                "t3t_c03_op_format"]
+                "t3t_c03_op_format", "t3t_c03_writes_at_capacity", "t3t_c03_format_wipes",
+                "t3t_c03_attr_fields_compared", "t3t_c03_attr_write_cmds_decoded", "t3t_c03_aux_service_layouts",
+                "t3t_c03_aux_system_layouts", "t3t_c03_aux_blocks_diffed", "t3t_c03_3byte_block_numbers",
+                "t3t_c03_pers_generic", "t3t_c03_pers_standard", "t3t_c03_pers_lite", "t3t_c03_pers_lites",
+                "t3t_c03_pers_lite+auth", "t3t_c03_pers_lites+auth", "t3t_c03_correlated_identical",
+                "t3t_c03_correlated_one_block_changed", "t3t_c03_correlated_two_blocks_changed",
+                "t3t_c03_hist_ops", "t3t_c03_hist_final_write", "t3t_c03_hist_final_format",
+                "t3t_c03_hist_format_nmaxb_grown"] + ["t3t_c03_hist_kind_" + _k for _k in (
+                    "second", "retry", "retry2", "format", "cutstate", "cutstate-retry")]
 
 
 def plan_c03(tier):
     if tier == "quick":
-        return [{"part": "write", "n": 3500}, {"part": "write_big", "n": 700}, {"part": "format", "n": 3000}]
+        return [{"part": "write", "n": 3500}, {"part": "write_big", "n": 700}, {"part": "format", "n": 3000},
+                {"part": "hist", "n": 900}]
     out = [{"part": "write", "n": 30000, "sub": i, "timeout": 1500} for i in range(6)]
+    out += [{"part": "hist", "n": 9000, "sub": i, "timeout": 1500} for i in range(3)]
     out += [{"part": "write_big", "n": 7000, "sub": i, "timeout": 1500} for i in range(5)]
     out += [{"part": "format", "n": 30000, "sub": i, "timeout": 1500} for i in range(5)]
     return out
@@ -578,11 +1173,47 @@ def c03_gen(part, i, rng):
         lay["old_salt"] = rng.randrange(1, 100)
         op = {"op": "format", "wipe": rng.choice([None, None, 0x00, 0xA5, 0xFF]), "version": rng.choice([0x10, 0x10, 0x11, 0x1F])}
     lay["sensf_rd"] = True
+    c03_add_aux(lay, rng)
+    if op["op"] == "write" and i % 5 == 4 and lay["old_len"] >= 16:
+        op["correlated"] = [rng.choice([0, 1, 2]), rng.randrange(0, 40)]
+        op["len"] = lay["old_len"]
     return {"family": FAM, "layout": lay, "oper": op}
+
+
+def c03_add_aux(lay, rng):
+    """a second key-less service with memory in the NDEF system; Standard: also a service with memory in another system"""
+    if lay["kind"] in ("generic", "standard") and rng.random() < 0.6:
+        lay["aux"] = [[0x12FC, rng.choice([1, 2, 3]), rng.choice([1, 2, 4])]]
+        if lay["kind"] == "standard" and rng.random() < 0.5:
+            lay["other_systems"] = [0x0003]
+            lay["ndef_first"] = rng.random() < 0.5
+            lay["aux"].append([0x0003, rng.choice([0, 1]), rng.choice([1, 3])])
+
+
+def c03_message(op, lay):
+    if "correlated" in op:
+        old = mk_msg(lay.get("old_salt", 1), lay.get("old_len", 0))
+        return old if op["correlated"][0] == 0 else vary_msg(old, op["correlated"][0], op["correlated"][1])
+    return mk_msg(op["salt"], op["len"])
 
 
 def run_c03(desc, R, rng):
     guard(R)
+    if desc["part"] == "hist":
+        for i in range(desc["n"]):
+            hkind = HIST_KINDS[i % len(HIST_KINDS)]
+            lay, steps = hist_gen(hkind, rng, auth_share=0.15)
+            c03_add_aux(lay, rng)
+            cap = lay["nmaxb"] * 16
+            if hkind != "format" and rng.random() < 0.25:
+                op = {"op": "format", "wipe": rng.choice([None, 0x00, 0xA5]), "version": 0x10}
+            else:
+                op = {"op": "write", "salt": 60 + rng.randrange(40), "len": max(0, min(cap, rng.choice(
+                    [0, 1, 17, cap - 16, cap - 1, cap, cap, cap, rng.randrange(cap + 1)])))}
+                if hkind == "format":
+                    op["len_is_capacity"] = rng.random() < 0.6        # the capacity after the format (Nmaxb re-probed)
+            c03_case({"family": FAM, "hist": hkind, "layout": lay, "steps": steps, "oper": op}, R)
+        return
     for i in range(desc["n"]):
         c03_case(c03_gen(desc["part"], i, rng), R)
 
@@ -604,22 +1235,49 @@ def c03_case(case, R):
     lay, op = case["layout"], case["oper"]
     model = build(lay)
     sony = lay["kind"] in ("lite", "lites")
-    with fixed_challenge():
-        clf, dev, tag = open_tag(model, lay)
+    hkind = case.get("hist")
+    nd = None
+    if hkind:
+        h = hist_play(model, lay, case["steps"], R, "t3t_c03_hist")
+        if h is None:
+            R.case([lkey(lay), case["steps"], op], nontrivial=False)
+            return
+        tag, nd = h["tag"], h["nd"]
+    else:
+        with fixed_challenge():
+            st, v = attempt(lambda: open_tag(model, lay))
+        if st != "ok" or v[2] is None:
+            if st == "exc" and isinstance(v, RuntimeError) and str(v).startswith("setup:"):
+                R.inconc("t3t C03: %s" % v)
+            else:
+                R.count("t3t_c03_activation_failed")           # C01 / C08 judge that; nothing to diff here
+            R.case(lkey(lay) + ["noactivation"], nontrivial=False)
+            return
+        tag = v[2]
     before = model.image()
+    a0 = t3_attr.decode(before[0]) if 0 in before else None
+    nmaxb0 = a0["nmaxb"] if hkind and a0 is not None and a0["checksum_ok"] else lay["nmaxb"]
     w0 = len(model.write_log)
     outcome = None
+    msg = b""
     try:
-        if op["op"] == "write":
-            nd = tag.ndef
-            if nd is None:
-                R.case(lkey(lay) + ["nondef"], nontrivial=False)
-                return
-            nd.octets = mk_msg(op["salt"], op["len"])
-            outcome = "done"
-        else:
-            with quiet():
-                outcome = tag.format(version=op["version"], wipe=op["wipe"])
+        with fixed_challenge():
+            if op["op"] == "write":
+                if nd is None:
+                    nd = tag.ndef
+                if nd is None:
+                    R.case(lkey(lay) + ["nondef"], nontrivial=False)
+                    return
+                msg = c03_message(op, lay)
+                if op.get("len_is_capacity"):
+                    msg = mk_msg(op["salt"], nd.capacity)
+                elif hkind and len(msg) > nd.capacity:
+                    msg = msg[:nd.capacity]
+                nd.octets = msg
+                outcome = "done"
+            else:
+                with quiet():
+                    outcome = tag.format(version=op["version"], wipe=op["wipe"])
     except nfc.tag.TagCommandError as e:
         outcome = "TagCommandError(0x%x)" % (e.errno & 0xFFFF)
     except Exception as e:
@@ -628,7 +1286,7 @@ def c03_case(case, R):
         R.count("t3t_c03_op_raised")
     after = model.image()
     if op["op"] == "write":
-        allowed = set(range(0, lay["nmaxb"] + 1))
+        allowed = set(range(0, nmaxb0 + 1))
         if lay.get("auth") and lay["kind"] == "lites":
             allowed |= {0x90, 0x91}
     elif sony:
@@ -642,14 +1300,55 @@ def c03_case(case, R):
         ncmd += 1
         for n in (numbers or []):
             addressed.add(n)
-    R.case(lkey(lay) + [op])
+    R.case(lkey(lay) + [op, lay.get("aux"), hkind, case.get("steps"), lay.get("writef"), lay.get("cut_blocks")])
     R.count("t3t_c03_ops")
     R.count("t3t_c03_op_" + op["op"])
     R.count("t3t_c03_write_cmds_inspected", ncmd)
     R.count("t3t_c03_blocks_diffed", len(before))
+    R.count("t3t_c03_pers_" + lay["kind"] + ("+auth" if lay.get("auth") else ""))
     R.seen("t3t_c03_outcomes", str(outcome))
-    if op["op"] == "write" and op["len"] == lay["nmaxb"] * 16:
+    for scs in set(x[0] for x in model.write_data_log[w0:]):
+        R.seen("t3t_c03_write_service_lists", " ".join("%04X" % x for x in scs))
+    if lay.get("aux"):
+        R.count("t3t_c03_aux_service_layouts")
+        R.count("t3t_c03_aux_blocks_diffed", sum(1 for n in before if n >= 0x10000))
+        if len(lay["aux"]) > 1:
+            R.count("t3t_c03_aux_system_layouts")
+    if hkind:
+        R.count("t3t_c03_hist_ops")
+        R.count("t3t_c03_hist_kind_" + hkind)
+        R.count("t3t_c03_hist_final_" + op["op"])
+        if hkind == "format" and nmaxb0 > lay["nmaxb"]:
+            R.count("t3t_c03_hist_format_nmaxb_grown")
+    if "correlated" in op:
+        R.count("t3t_c03_correlated_" + ("identical", "one_block_changed", "two_blocks_changed")[op["correlated"][0]])
+    if op["op"] == "write" and outcome == "done" and len(msg) == nmaxb0 * 16:
         R.count("t3t_c03_writes_at_capacity")
+    if op["op"] == "write" and nmaxb0 > 255 and any(n > 255 for n in addressed):
+        R.count("t3t_c03_3byte_block_numbers")
+    if op["op"] == "write" and a0 is not None and a0["checksum_ok"]:
+        # the attribute block belongs to the NDEF area only with Ln, WriteF and the checksum
+        fields = ("ver", "nbr", "nbw", "nmaxb", "rfu", "rwflag")
+        show = lambda a: "Ver=%02X Nbr=%d Nbw=%d Nmaxb=%d RFU=%s RWFlag=%02X" % (     # noqa: E731
+            a["ver"], a["nbr"], a["nbw"], a["nmaxb"], a["rfu"].hex(), a["rwflag"])
+        a1 = t3_attr.decode(after[0]) if 0 in after else None
+        R.count("t3t_c03_attr_fields_compared")
+        if a1 is None or any(a1[f] != a0[f] for f in fields):
+            R.violation("t3t/c03/write%s/attribute-fields-changed" % ("/lite" if sony else ""),
+                        "ndef.octets= changed attribute fields other than Ln / WriteF / checksum: %s -> %s (layout %r, "
+                        "outcome %s)" % (show(a0), "block 0 gone" if a1 is None else show(a1), lkey(lay), outcome), case)
+        else:
+            for scs, numbers, datas, applied in model.write_data_log[w0:]:
+                if datas is None or 0 not in numbers:
+                    continue
+                R.count("t3t_c03_attr_write_cmds_decoded")
+                aw = t3_attr.decode(datas[numbers.index(0)])
+                if any(aw[f] != a0[f] for f in fields):
+                    R.violation("t3t/c03/write%s/attribute-fields-in-write-command" % ("/lite" if sony else ""),
+                                "ndef.octets= sent a Write for block 0 with attribute fields other than Ln / WriteF / "
+                                "checksum changed: %s -> %s (layout %r, outcome %s)" % (show(a0), show(aw), lkey(lay), outcome),
+                                case)
+                    break
     if op["op"] == "format" and op["wipe"] is not None and outcome is True:
         R.count("t3t_c03_format_wipes")
     tagk = op["op"] + ("/lite" if sony else "")
@@ -705,9 +1404,24 @@ RULE_C08 = ("(img) memory images: attribute block classes {valid, bad checksum, 
             "fewer / more, status flags only (success and error), error flags with data, SF2 only, no status flags, "
             "LEN FFh, other response code, other IDm, mute}. evaluated: activate, tag.ndef, length, capacity, octets, "
             "has_changed, tag.ndef again. distinct by full case descriptor. SENSF_RES of 18/20/21 bytes are outside the "
-            "property's quantifier and only observed (t3t_c08_obs_*)")
+            "property's quantifier and only observed (t3t_c08_obs_*).  (trunc) for five layouts (generic with / without "
+            "Polling, Standard with the NDEF system second, Lite, authenticated Lite-S with MAC reads; thorough: Nbr 1..15) "
+            "EVERY response of the fault-free dialogue (Polling, attribute read, data reads, the reads of has_changed) is "
+            "cut to EVERY length 0..full with a matching LEN octet, the genuine response code and IDm, once with the "
+            "genuine status flags and - from 11 octets on - once with status flag 1 = 01h (flag 2 = A8h).  A third of the "
+            "(stop) and (adv) layouts carry a mutated attribute block of the (img) classes and any IC code.  Clauses: no "
+            "exception, <= 5000 commands and <= 10^6 executed source lines of nfc/tag/tt3*.py per evaluation (harness "
+            "exceptions derived from BaseException), length <= capacity, capacity <= Nmaxb * 16 of the attribute block in "
+            "memory, octets = first Ln bytes of blocks 1..Nmaxb (all modes whose delivered data bytes are genuine)")
 REQUIRED_C08 = ["t3t_c08_evals", "t3t_c08_ndef_none", "t3t_c08_ndef_object", "t3t_c08_stop_positions",
-                "t3t_c08_adv_cases", "t3t_c08_octets_checked",
+                "t3t_c08_adv_cases", "t3t_c08_octets_checked", "t3t_c08_capacity_checked",
+                "t3t_c08_capacity_equals_data_area", "t3t_c08_step_budget_armed",
+                "t3t_c08_stop_positions_mutated_attr", "t3t_c08_adv_cases_mutated_attr",
+                "t3t_c08_trunc_cases", "t3t_c08_trunc_poll_cases", "t3t_c08_trunc_read_cases",
+                "t3t_c08_trunc_in_has_changed", "t3t_c08_trunc_mac_read", "t3t_c08_trunc_read_full_sf0",
+                "t3t_c08_trunc_read_full_sf1", "t3t_c08_trunc_read_len11_sf1", "t3t_c08_trunc_read_len12_sf1"] + [
+    "t3t_c08_trunc_read_len%d_sf0" % _n for _n in (0, 1, 2, 9, 10, 11, 12, 13)] + [
+    "t3t_c08_trunc_poll_len%d_sf0" % _n for _n in (0, 1, 2, 9, 10, 11, 12, 13)] + [
                 "t3t_c08_dlg_cells", "t3t_c08_dlg_poll_cases", "t3t_c08_dlg_read_cases", "t3t_c08_dlg_poll_sent",
                 "t3t_c08_dlg_ndef_after_poll", "t3t_c08_dlg_poll_unrequested_rd", "t3t_c08_dlg_poll_other_length",
                 "t3t_c08_dlg_read_other_length", "t3t_c08_dlg_disc_none", "t3t_c08_dlg_disc_12fc",
@@ -729,12 +1443,13 @@ ADV_AUTH_VARIANTS = ["flipdata", "fewer", "more", "count0", "empty", "trunc11_sf
 def plan_c08(tier):
     if tier == "quick":
         return [{"part": "img", "n": 18000}, {"part": "stop", "n": 1200}, {"part": "adv", "n": 70},
-                {"part": "adv_auth", "n": 4}, {"part": "dlg", "full": False}]
+                {"part": "adv_auth", "n": 4}, {"part": "dlg", "full": False}, {"part": "trunc", "full": False}]
     out = [{"part": "img", "n": 150000, "sub": i, "timeout": 1500} for i in range(5)]
     out += [{"part": "dlg", "full": True, "sub": i, "timeout": 1500} for i in range(3)]
     out += [{"part": "stop", "n": 12000, "sub": i, "timeout": 1500} for i in range(3)]
     out += [{"part": "adv", "n": 500, "sub": i, "timeout": 1500} for i in range(5)]
     out += [{"part": "adv_auth", "n": 20, "sub": i, "timeout": 1500} for i in range(3)]
+    out += [{"part": "trunc", "full": True, "sub": i, "timeout": 1500} for i in range(3)]
     return out
 
 
@@ -815,7 +1530,7 @@ def c08_gen_img(i, rng):
 def c08_model(case):
     lay = case["layout"]
     model = build(lay)
-    if case.get("mode") == "img":
+    if "attr_class" in case:
         if case["attr_class"] == "no_block0":
             del model.blocks[0]
         elif "attr" in case and case["attr"] is not None:
@@ -844,11 +1559,20 @@ def run_c08(desc, R, rng):
     if part == "dlg":
         c08_run_dlg(desc, R, rng)
         return
+    if part == "trunc":
+        c08_run_trunc(desc, R, rng)
+        return
     for i in range(desc["n"]):
         if R.counters.get("t3t_c08_nonterm", 0) >= 20:
             return
         # a valid layout with a message; the reference run gives the command positions
-        if part == "adv_auth":
+        mutated = None
+        if part in ("stop", "adv") and i % 3 == 2:
+            # crossed with the image classes: a mutated attribute block (and any IC code) under the same stop / adversarial
+            # positions
+            mutated = c08_gen_img(i // 3 + desc.get("sub", 0) * 7919, rng)
+            lay = mutated["layout"]
+        elif part == "adv_auth":
             lay = {"kind": ("lite", "lites")[i % 2], "nbr": rng.randrange(1, 5), "nbw": 1, "nmaxb": rng.randrange(2, 7),
                    "auth": True, "password": PASSWORD}
         else:
@@ -863,20 +1587,28 @@ def run_c08(desc, R, rng):
                     if rng.random() < 0.5:
                         lay["other_systems"] = [0x0003]
                         lay["ndef_first"] = False
-        cap = lay["nmaxb"] * 16
-        lay["old_len"] = rng.choice([cap, rng.randrange(1, cap + 1), rng.randrange(1, cap + 1)])
-        lay["old_salt"] = rng.randrange(1, 200)
-        lay["sensf_rd"] = rng.random() < 0.6
-        ref = {"family": FAM, "mode": "ref", "layout": lay}
+        extra = {}
+        if mutated is None:
+            cap = lay["nmaxb"] * 16
+            lay["old_len"] = rng.choice([cap, rng.randrange(1, cap + 1), rng.randrange(1, cap + 1)])
+            lay["old_salt"] = rng.randrange(1, 200)
+            lay["sensf_rd"] = rng.random() < 0.6
+        else:
+            extra = {"attr_class": mutated["attr_class"], "attr": mutated.get("attr")}
+        ref = dict({"family": FAM, "mode": "ref", "layout": lay}, **extra)
         ncmd = c08_eval(ref, R, count_only=True)
         if part == "stop":
             for j in range(0, ncmd + 1):
-                c08_eval({"family": FAM, "mode": "stop", "layout": lay, "j": j}, R)
+                c08_eval(dict({"family": FAM, "mode": "stop", "layout": lay, "j": j}, **extra), R)
                 R.count("t3t_c08_stop_positions")
+                if mutated is not None:
+                    R.count("t3t_c08_stop_positions_mutated_attr")
         else:
             for p in range(ncmd):
                 for v in (ADV_AUTH_VARIANTS if part == "adv_auth" else ADV_VARIANTS):
-                    case = {"family": FAM, "mode": "adv", "layout": lay, "pos": p, "variant": v}
+                    case = dict({"family": FAM, "mode": "adv", "layout": lay, "pos": p, "variant": v}, **extra)
+                    if mutated is not None:
+                        R.count("t3t_c08_adv_cases_mutated_attr")
                     if v == "random":
                         n = rng.choice([1, 2, 3, 11, 12, 13, 29, rng.randrange(1, 60)])
                         body = bytes(rng.randrange(256) for _ in range(n - 1))
@@ -1165,6 +1897,86 @@ def c08_tamper(case):
     return fn
 
 
+# ---- (trunc) every response of the read dialogue cut to every length -------------------------------------------------
+TRUNC_LAYOUTS_QUICK = [
+    {"kind": "generic", "nbr": 2, "nbw": 1, "nmaxb": 3, "extra": 1, "old_len": 40, "sensf_rd": False},
+    {"kind": "generic", "nbr": 1, "nbw": 1, "nmaxb": 2, "extra": 0, "old_len": 17, "sensf_rd": True},
+    {"kind": "standard", "nbr": 3, "nbw": 2, "nmaxb": 4, "extra": 1, "old_len": 64, "ic": 0x01, "other_systems": [0x0003],
+     "ndef_first": False, "sensf_rd": True},
+    {"kind": "lite", "nbr": 4, "nbw": 1, "nmaxb": 5, "old_len": 70, "sensf_rd": True},
+    {"kind": "lites", "nbr": 2, "nbw": 1, "nmaxb": 3, "old_len": 33, "auth": True, "password": PASSWORD, "sensf_rd": True},
+]
+
+
+def trunc_tamper(case):
+    pos, L, sf = case["pos"], case["len"], case["sf"]
+
+    def fn(n, cmd, g):
+        if n != pos or g is None:
+            return g
+        out = bytearray(bytes(g)[:L])
+        if out:
+            out[0] = len(out)          # well-framed: the LEN octet matches; response code and IDm are the genuine ones
+        if sf and len(out) > 10:
+            out[10] = 0x01             # status flag 1 says error (flag 2: block list error) in front of the genuine data
+            if len(out) > 11:
+                out[11] = 0xA8
+        return bytes(out)
+    return fn
+
+
+def c08_run_trunc(desc, R, rng):
+    full = desc.get("full", False)
+    lays = [dict(x) for x in TRUNC_LAYOUTS_QUICK]
+    if full:
+        sub = desc.get("sub", 0)
+        for nbr in range(1 + sub, 16, 3):
+            lays.append({"kind": "generic", "nbr": nbr, "nbw": 1, "nmaxb": nbr + 1, "extra": 1, "old_len": 16 * nbr + 5,
+                         "sensf_rd": nbr % 2 == 0})
+            lays.append({"kind": "standard", "nbr": nbr, "nbw": 1, "nmaxb": nbr, "extra": 0, "old_len": 16 * nbr,
+                         "ic": rng.choice([0x01, 0x0D, 0x06]), "sensf_rd": True})
+        for nbr in (1, 2, 3, 4):
+            for kind in ("lite", "lites"):
+                lays.append({"kind": kind, "nbr": nbr, "nbw": 1, "nmaxb": 5, "old_len": 65, "sensf_rd": bool(sub % 2),
+                             "auth": (nbr + sub) % 2 == 0, "password": PASSWORD})
+    for lay in lays:
+        lay["old_salt"] = rng.randrange(1, 200)
+        info = {}
+        ncmd = c08_eval({"family": FAM, "mode": "ref", "layout": lay}, R, info=info)
+        wire = info.get("wire", [])
+        first_pass = info.get("ncmd_first", ncmd)
+        R.count("t3t_c08_trunc_layouts")
+        for p, (cmd, rsp) in enumerate(wire):
+            if not isinstance(rsp, bytes) or len(cmd) < 2:
+                continue
+            code = cmd[1]
+            lens = range(0, len(rsp) + 1)
+            if lay.get("auth") and not full:
+                # MAC protected reads cost ~50 ms each (pure Python DES on both sides): the quick tier cuts at the frame
+                # header lengths, around the block boundaries and around the MAC block at three positions (attribute
+                # read, first data read, first read of has_changed); every length at every position: thorough tier
+                if p not in (0, 1, first_pass):
+                    continue
+                lens = sorted(x for x in set(list(range(0, 14)) + [28, 29, 30, len(rsp) - 17, len(rsp) - 16, len(rsp) - 15,
+                                                                  len(rsp) - 1, len(rsp)]) if 0 <= x <= len(rsp))
+            for L in lens:
+                for sf in ((0, 1) if code != 0x00 and L >= 11 else (0,)):
+                    if R.counters.get("t3t_c08_nonterm", 0) >= 20:
+                        return
+                    c08_eval({"family": FAM, "mode": "trunc", "layout": lay, "pos": p, "len": L, "sf": sf}, R)
+                    R.count("t3t_c08_trunc_cases")
+                    what = "poll" if code == 0x00 else "read" if code == 0x06 else "other"
+                    R.count("t3t_c08_trunc_%s_cases" % what)
+                    if L in (0, 1, 2, 9, 10, 11, 12, 13):
+                        R.count("t3t_c08_trunc_%s_len%d_sf%d" % (what, L, sf))
+                    if L == len(rsp):
+                        R.count("t3t_c08_trunc_%s_full_sf%d" % (what, sf))
+                    if p >= first_pass:
+                        R.count("t3t_c08_trunc_in_has_changed")
+                    if code == 0x06 and lay.get("auth") and len(rsp) >= 13 + 32:
+                        R.count("t3t_c08_trunc_mac_read")
+
+
 def c08_eval(case, R, count_only=False, info=None):
     lay, mode = case["layout"], case["mode"]
     model = c08_model(case)
@@ -1173,21 +1985,35 @@ def c08_eval(case, R, count_only=False, info=None):
         front = Tamper(model, c08_tamper(case), enabled=False)
     elif mode == "dlg":
         front = Tamper(model, dlg_tamper(case), enabled=False, sense_fn=dlg_sense(case))
+    elif mode == "trunc":
+        front = Tamper(model, trunc_tamper(case), enabled=False)
     key = [mode, lkey(lay), case.get("attr_class"), case.get("attr"), case.get("j"), case.get("pos"),
-           case.get("variant"), case.get("bytes"), case.get("bit")]
+           case.get("variant"), case.get("bytes"), case.get("bit"), case.get("len"), case.get("sf")]
     if mode == "dlg":
         key += [lay.get("idm"), case["disc"].get("rd"), case["disc"].get("rdbytes"), case.get("cmd"), case.get("scope")]
     stage = "activate"
     nd = None
     res = {}
+    box = {"base": None, "j": None}
 
     def viol(sig, what):
         R.violation("t3t/" + sig, what + " [mode %s, layout %r, %s]" % (mode, lkey(lay), {
-            k: case.get(k) for k in ("attr_class", "j", "pos", "variant", "disc", "cmd", "scope") if k in case}), case)
+            k: case.get(k) for k in ("attr_class", "j", "pos", "variant", "disc", "cmd", "scope", "len", "sf") if k in case}),
+            case)
 
+    def script(n, data):
+        # n = index of the command since the device was created
+        if n >= COMMAND_BOUND:
+            raise T3Bound()
+        if box["j"] is not None and n - box["base"] >= box["j"]:
+            return ("cmd_lost", nfc.clf.TimeoutError)
+        return None
+
+    steps = StepBudget.get()
+    steps.count = 0
     try:
         with fixed_challenge():
-            clf, dev, tag = tagdevice.activate(front, command_bound=COMMAND_BOUND)
+            clf, dev, tag = tagdevice.activate(front, command_bound=COMMAND_BOUND + 50, script=script)
             if tag is None:
                 R.count("t3t_c08_activate_none")
                 R.case(key)
@@ -1195,23 +2021,26 @@ def c08_eval(case, R, count_only=False, info=None):
                 return 0
             R.seen("t3t_c08_classes", type(tag).__name__)
             if lay.get("auth"):
-                if tag.authenticate(lay["password"]) is not True:
-                    raise RuntimeError("setup: authentication failed")
+                st, v = attempt(lambda: tag.authenticate(lay["password"]))
+                if st != "ok" or v is not True:
+                    # set-up of the case, not the judged evaluation (authentication is C20's subject)
+                    R.inconc("t3t C08: set-up authentication against the fault-free model failed (%s)" % (
+                        exc_sig(v) if st == "exc" else v,))
+                    R.case(key, nontrivial=False)
+                    return 0
         base = dev.n_commands
-        if mode in ("adv", "dlg"):
+        box["base"] = base
+        if mode in ("adv", "dlg", "trunc"):
             front.enabled = True
         if info is not None:
             info["cls"] = type(tag).__name__
         if mode == "stop":
-            j = case["j"]
-
-            def script(n, data, j=j, base=base):
-                if n - base >= j:
-                    return ("cmd_lost", nfc.clf.TimeoutError)
-            dev.script = script
+            box["j"] = case["j"]
         r0 = len(model.read_log)
         stage = "ndef"
         nd = tag.ndef
+        if info is not None:
+            info["ncmd_first"] = dev.n_commands - base
         if nd is not None:
             stage = "length"
             res["length"] = nd.length
@@ -1221,6 +2050,8 @@ def c08_eval(case, R, count_only=False, info=None):
             res["octets"] = nd.octets
             res["readable"] = nd.is_readable
             res["blocks"] = sorted(set(b for lst in model.read_log[r0:] for b in lst))
+            if info is not None:
+                info["ncmd_first"] = dev.n_commands - base
             stage = "has_changed"
             res["changed"] = nd.has_changed
             stage = "ndef2"
@@ -1230,11 +2061,18 @@ def c08_eval(case, R, count_only=False, info=None):
                 res["octets2"] = nd2.octets
                 res["length2"], res["capacity2"] = nd2.length, nd2.capacity
         ncmd = dev.n_commands - base
-    except tagdevice.SimTagDevice.Bound:
+    except (T3Bound, tagdevice.SimTagDevice.Bound):
         R.case(key)
         R.count("t3t_c08_evals")
         R.count("t3t_c08_nonterm")
         viol("nonterm/" + stage, "more than %d commands during %s" % (COMMAND_BOUND, stage))
+        return 0
+    except StepBudgetExceeded:
+        R.case(key)
+        R.count("t3t_c08_evals")
+        R.count("t3t_c08_nonterm")
+        viol("nonterm/step-budget/" + stage, "more than %d source lines of nfc/tag/tt3*.py executed during %s without "
+             "finishing" % (C08_STEPS, stage))
         return 0
     except Exception as e:
         R.case(key)
@@ -1247,6 +2085,11 @@ def c08_eval(case, R, count_only=False, info=None):
         R.count("t3t_c08_raised")
         viol("escape/%s/%s" % (stage, esc_sig(e)), "%s raised %s: %s" % (stage, type(e).__name__, str(e)[:120]))
         return 0
+    if steps.active:
+        R.count("t3t_c08_step_budget_armed")
+        R.max("t3t_c08_source_lines_per_eval", steps.count)
+    if info is not None:
+        info["wire"] = [(e[1], e[2]) for e in dev.log[base:]]
     if count_only:
         return ncmd
     if mode == "dlg":
@@ -1268,8 +2111,8 @@ def c08_eval(case, R, count_only=False, info=None):
         if "length" + suffix in res and res["length" + suffix] > res["capacity" + suffix]:
             viol("c08/length>capacity", "NDEF object with length %d > capacity %d" % (res["length" + suffix], res["capacity" + suffix]))
             break
-    if mode in ("img", "stop", "ref", "dlg"):
-        # (dlg: the response variants never alter block data, they only cut it short or append to it, so every
+    if mode in ("img", "stop", "ref", "dlg", "trunc"):
+        # (dlg, trunc: the response variants never alter block data, they only cut it short or append to it, so every
         # delivered data byte is genuine and an NDEF object still has to show the content of the data area)
         # untampered bytes: the octets must come from the data area the attribute block declares (blocks 1..Nmaxb)
         b0 = model.get_block(0)
@@ -1281,6 +2124,15 @@ def c08_eval(case, R, count_only=False, info=None):
                  "NDEF object although the attribute block is %s" % (
                      "missing" if a is None else "checksum %s, version %02Xh" % (a["checksum_ok"], a["ver"])))
         elif a is not None:
+            # the data area the tag declares: Nmaxb blocks of 16 bytes
+            R.count("t3t_c08_capacity_checked")
+            if a["nmaxb"] * 16 >= res["length"] and res["capacity"] == a["nmaxb"] * 16:
+                R.count("t3t_c08_capacity_equals_data_area")
+            for suffix in ("", "2"):
+                if "capacity" + suffix in res and res["capacity" + suffix] > t3_attr.ref_capacity(a):
+                    viol("c08/capacity>data-area", "NDEF object with capacity %d, the attribute block declares Nmaxb = %d "
+                         "(%d bytes)" % (res["capacity" + suffix], a["nmaxb"], t3_attr.ref_capacity(a)))
+                    break
             area = b"".join(model.get_block(n) or b"" for n in range(1, a["nmaxb"] + 1) if n in model.blocks)
             used = [b for b in res["blocks"] if b not in (0, 0x81, 0x88)]
             outside = [b for b in used if not 1 <= b <= a["nmaxb"]]
@@ -1304,9 +2156,30 @@ RULE_C16 = ("cells = tag personality {generic, Standard, Lite, Lite-S (authentic
             "the result of the fault-free run / documented None/False; any other exception is an escape; at every cell "
             "an operation that returns normally returns the fault-free result or its documented failure value (dump: "
             "stops at the failing block) and, with the fault-free result, leaves the fault-free memory (format, which "
-            "probes the memory 'until an error': a fresh reader finds the same message and access flags)")
+            "probes the memory 'until an error': a fresh reader finds the same message and access flags).  Added: burst 99 "
+            "(the error never goes away for the rest of the operation; no command may be attempted 50 times in a row); "
+            "two bursts in one operation at two different command positions, each within the budget: judged as within "
+            "budget (same result, memory, answered sequence); personalities FeliCa Mobile and FeliCa Plug (reader "
+            "classes by IC code over the Standard / generic tag model; quick tier: NDEF, raw read / write, presence, "
+            "format, dump with bursts 2 and 3); 'a command that was answered is not sent again' also for repetitions "
+            "that are not adjacent: Write commands (retries of an unanswered attempt collapsed) whose every block "
+            "carries the data of the last ANSWERED Write of that block, counted differentially against the fault-free "
+            "run, on success and failure paths; sessions of three operations on ONE tag object, the first one failing "
+            "beyond the budget at every command position, the next two on a healthy link: nothing but TagCommandError "
+            "escapes, a step that starts from the fault-free memory and returns normally returns the fault-free result "
+            "(or the documented failure value) and leaves the fault-free memory, no step re-sends answered Writes.  "
+            "Mixed-kind bursts are not generated: neither the property nor the docstring of send_cmd_recv_rsp says "
+            "which of several error kinds the errno has to name")
 REQUIRED_C16 = ["t3t_c16_cells", "t3t_c16_within_ok", "t3t_c16_beyond_tagerror", "t3t_c16_sequences_compared", "t3t_c16_repeat_checked",
-                "t3t_c16_ops_covered", "t3t_c16_normal_returns_judged"]
+                "t3t_c16_ops_covered", "t3t_c16_normal_returns_judged", "t3t_c16_nonidempotent_macwrite",
+                "t3t_c16_format_result_verified_by_fresh_reader", "t3t_c16_resend_checked",
+                "t3t_c16_resend_checked_on_failure_path", "t3t_c16_persistent99_cells", "t3t_c16_persistent99_tagerror",
+                "t3t_c16_double_burst_cells", "t3t_c16_double_burst_both_hit", "t3t_c16_double_burst_ok",
+                "t3t_c16_session_cells", "t3t_c16_session_steps_judged", "t3t_c16_session_step_same_start_memory",
+                "t3t_c16_session_step_other_start_memory", "t3t_c16_session_step_same_result_same_memory",
+                "t3t_c16_session_op1_failed"] + [
+    "t3t_c16_pers_" + _k for _k in ("generic", "standard", "lite", "lites", "mobile", "plug")] + [
+    "t3t_c16_class_" + _k for _k in ("Type3Tag", "FelicaStandard", "FelicaMobile", "FelicaLite", "FelicaLiteS", "FelicaPlug")]
 
 KINDS = {"timeout": (nfc.clf.TimeoutError, nfc.tag.TIMEOUT_ERROR),
          "transmission": (nfc.clf.TransmissionError, nfc.tag.RECEIVE_ERROR),
@@ -1388,6 +2261,13 @@ C16_LAYOUTS = {
     "lites": {"kind": "lites", "nbr": 4, "nbw": 1, "nmaxb": 13, "old_len": 40, "old_salt": 8, "password": PASSWORD,
               "auth": True},
 }
+C16_LAYOUTS["mobile"] = dict(C16_LAYOUTS["standard"], ic=0x14)          # reader class FelicaMobile
+C16_LAYOUTS["plug"] = dict(C16_LAYOUTS["generic"], ic=0xE0)             # reader class FelicaPlug
+KIND_BASE = {"mobile": "standard", "plug": "generic"}
+PERS_OPS = ("ndef_read", "ndef_write", "is_present", "format_default", "dump", "read_without_encryption",
+            "write_without_encryption", "polling", "request_response")
+PERS_CLASS = {"generic": "Type3Tag", "standard": "FelicaStandard", "lite": "FelicaLite", "lites": "FelicaLiteS",
+              "mobile": "FelicaMobile", "plug": "FelicaPlug"}
 # protect / unauthenticated authenticate start from a factory key tag
 C16_LAYOUT_OVERRIDE = {
     ("lites", "protect_str"): {"password": b"", "auth": False},
@@ -1415,6 +2295,10 @@ NDEF_OPS = ("ndef_read", "ndef_write", "ndef_write_empty", "has_changed", "dump"
 
 def c16_cells(tier):
     cells = []
+    for kind in ("mobile", "plug"):
+        for name, op in sorted(OPS.items()):
+            if KIND_BASE[kind] in op["kinds"] and (tier != "quick" or name in PERS_OPS):
+                cells.append((kind, name, 0))
     for kind in ("lites", "lite", "standard", "generic"):        # costly (DES) personalities dealt out evenly
         for name, op in sorted(OPS.items()):
             if kind in op["kinds"]:
@@ -1431,17 +2315,19 @@ def c16_cells(tier):
 
 def plan_c16(tier):
     cells = c16_cells(tier)
+    sessions = [(k, name) for k in ("generic", "standard", "lite", "lites", "mobile", "plug") for name in sorted(SESSIONS)
+                if k in SESSIONS[name]["kinds"]]
     if tier == "quick":
         nsh = 5
-        return [{"cells": cells[i::nsh], "full": False} for i in range(nsh)]
+        return [{"cells": cells[i::nsh], "sessions": sessions[i::nsh], "full": False} for i in range(nsh)]
     nsh = 12
-    return [{"cells": cells[i::nsh], "full": True, "timeout": 1500} for i in range(nsh)]
+    return [{"cells": cells[i::nsh], "sessions": sessions[i::nsh], "full": True, "timeout": 1500} for i in range(nsh)]
 
 
 def c16_layout(kind, opname, variant=0):
     lay = dict(C16_LAYOUTS[kind])
     if variant:
-        lay.update(C16_VARIANTS[variant][kind])
+        lay.update(C16_VARIANTS[variant][KIND_BASE.get(kind, kind)])
     lay.update(C16_LAYOUT_OVERRIDE.get((kind, opname), {}))
     return lay
 
@@ -1450,8 +2336,89 @@ class SetupError(Exception):
     pass
 
 
+def _parse_write(cmd):
+    """Write Without Encryption command -> [(block number, 16 byte data)] | None"""
+    cmd = bytes(cmd)
+    if len(cmd) < 13 or cmd[1] != 0x08:
+        return None
+    ns = cmd[10]
+    p = 11 + 2 * ns
+    if p >= len(cmd):
+        return None
+    nb = cmd[p]
+    p += 1
+    numbers = []
+    for _i in range(nb):
+        if p >= len(cmd):
+            return None
+        if cmd[p] & 0x80:
+            numbers.append((cmd[p] & 0x0F, cmd[p + 1] if p + 1 < len(cmd) else None))
+            p += 2
+        else:
+            numbers.append((cmd[p] & 0x0F, cmd[p + 1] | cmd[p + 2] << 8 if p + 2 < len(cmd) else None))
+            p += 3
+    data = cmd[p:]
+    if len(data) != 16 * nb:
+        return None
+    return [(numbers[i], data[16 * i:16 * i + 16]) for i in range(nb)]
+
+
+def c16_resent(oplog):
+    """number of Write commands that repeat answered Writes: retries of an unanswered attempt (the identical command
+    directly behind it) are collapsed into one logical command; a logical Write counts when every block it carries has
+    exactly the data of the last ANSWERED Write of that block.  Judged differentially against the fault-free run
+    (format() re-writes block 0 with its own content by design)."""
+    last = {}
+    count = 0
+    i = 0
+    while i < len(oplog):
+        cmd = oplog[i][1]
+        j = i
+        while j + 1 < len(oplog) and not isinstance(oplog[j][2], bytes) and oplog[j + 1][1] == cmd:
+            j += 1
+        w = _parse_write(cmd) if cmd and len(cmd) > 1 and cmd[1] == 0x08 else None
+        if w:
+            if all(last.get(k) == d for k, d in w):
+                count += 1
+            rsp = oplog[j][2]
+            if isinstance(rsp, bytes) and len(rsp) >= 12 and rsp[10] == 0:
+                for k, d in w:
+                    last[k] = d
+        i = j + 1
+    return count
+
+
+def _longest_unanswered_run(oplog):
+    best = run = 0
+    prev = None
+    for _n, cmd, rsp in oplog:
+        if isinstance(rsp, bytes):
+            run, prev = 0, None
+            continue
+        run = run + 1 if cmd == prev else 1
+        prev = cmd
+        best = max(best, run)
+    return best
+
+
+def _c16_script(dev, logbase, fault, state):
+    def script(n, data):
+        # position = number of commands of the operation that were answered so far
+        if fault is None:
+            return None
+        answered = sum(1 for e in dev.log[logbase:] if isinstance(e[2], bytes))
+        if answered == fault[0] and state["left"] > 0:
+            state["left"] -= 1
+            return (fault[3], KINDS[fault[1]][0])
+        if len(fault) > 4 and answered == fault[4] and state["left2"] > 0:
+            state["left2"] -= 1
+            return (fault[3], KINDS[fault[1]][0])
+        return None
+    return script
+
+
 def c16_execute(kind, opname, fault, variant=0):
-    """one execution of the operation; fault = None | (pos, kindname, burst, flavour)
+    """one execution of the operation; fault = None | (pos, kindname, burst, flavour[, pos2, burst2])
     -> dict(result | exc, image, answered, ncmd)"""
     lay = c16_layout(kind, opname, variant)
     op = OPS[opname]
@@ -1464,18 +2431,8 @@ def c16_execute(kind, opname, fault, variant=0):
             raise SetupError("%s/%s: %s" % (kind, opname, exc_sig(e)))
         base = dev.n_commands
         logbase = len(dev.log)
-        state = {"done": 0, "left": fault[2] if fault else 0}
-
-        def script(n, data):
-            # position = number of commands of the operation that were answered so far
-            if fault is None:
-                return None
-            answered = sum(1 for e in dev.log[logbase:] if isinstance(e[2], bytes))
-            if answered == fault[0] and state["left"] > 0:
-                state["left"] -= 1
-                return (fault[3], KINDS[fault[1]][0])
-            return None
-        dev.script = script
+        state = {"done": 0, "left": fault[2] if fault else 0, "left2": fault[5] if fault and len(fault) > 4 else 0}
+        dev.script = _c16_script(dev, logbase, fault, state)
         out = {}
         try:
             out["result"] = norm(op["run"](tag, ctx))
@@ -1485,6 +2442,7 @@ def c16_execute(kind, opname, fault, variant=0):
     out["image"] = model.image()
     out["model"] = model
     out["layout"] = lay
+    out["cls"] = type(tag).__name__
     out["answered"] = [e[1] for e in dev.log[logbase:] if isinstance(e[2], bytes)]
     # an answered write command (response delivered to the reader) directly followed by the identical command; reads
     # may legitimately be repeated back to back (protect() reads block 0 twice), they are covered by the comparison
@@ -1492,8 +2450,15 @@ def c16_execute(kind, opname, fault, variant=0):
     oplog = dev.log[logbase:]
     out["repeated"] = [i for i in range(len(oplog) - 1)
                        if isinstance(oplog[i][2], bytes) and oplog[i + 1][1] == oplog[i][1] and oplog[i][1][1] == 0x08]
+    out["resent"] = c16_resent(oplog)
+    out["unanswered_run"] = _longest_unanswered_run(oplog)
     out["attempts"] = dev.n_commands - base
-    out["injected"] = (fault[2] - state["left"]) if fault else 0
+    inj = [(fault[2] - state["left"])] if fault else [0]
+    if fault and len(fault) > 4:
+        inj.append(fault[5] - state["left2"])
+    out["injected"] = sum(inj)
+    out["injected_by_burst"] = inj
+    out["beyond"] = any(x > BUDGET for x in inj)
     # a command that the tag executed although its response was lost and that cannot be executed a second time
     out["lost_executed_nonidempotent"] = any(
         isinstance(e[2], str) and e[2].startswith("rsp_lost") and _is_mac_write(e[1]) for e in dev.log[logbase:])
@@ -1507,9 +2472,146 @@ def run_c16(desc, R, rng):
             c16_op(kind, opname, R, rng, full=desc.get("full", False), variant=variant)
         except SetupError as e:
             R.inconc("t3t C16: setup of a cell failed (%s)" % e)
+    for kind, name in desc.get("sessions", []):
+        try:
+            c16_sessions(kind, name, R, rng, full=desc.get("full", False))
+        except SetupError as e:
+            R.inconc("t3t C16: setup of a session failed (%s)" % e)
+
+
+# ---- sessions: three operations on ONE tag object, the first one fails beyond the retry budget -------------------------
+SESSIONS = {
+    "rewrite": {"kinds": ("generic", "standard", "lite", "lites", "mobile", "plug"), "ops": ["ndef_write", "ndef_write", "ndef_read"]},
+    "read-write": {"kinds": ("generic", "standard", "lite", "lites"), "ops": ["ndef_read", "ndef_write_empty", "ndef_read"]},
+    "raw": {"kinds": ("generic", "standard", "lite", "plug"), "ops": ["write_to_ndef_service", "read_from_ndef_service", "is_present"]},
+    "format-write": {"kinds": ("generic", "lite", "mobile"), "ops": ["format", "ndef_write", "has_changed"]},
+    "mac": {"kinds": ("lites",), "ops": ["write_with_mac", "write_with_mac", "read_with_mac"]},
+}
+
+
+# After a failed `octets =` (WriteF = 0Fh on the tag) and a successful second assignment on the same NDEF object,
+# ndef.is_readable stays False (Type3Tag.NDEF._write_ndef_data re-reads the attribute block, which sets _readable from
+# the WriteF it finds, and never updates it after the final attribute write).  A real defect of nfcpy, but no clause of
+# C16 (nor C01: a fresh activation is fine) speaks about the access flags of an object: observed, see
+# findings-proposed/T3T-stale-is-readable.md
+C16_SESSION_STALE_FLAGS_IS_VIOLATION = False
+
+
+def c16_session_execute(kind, name, fault):
+    """-> list of steps: dict(op, skipped | result | exc, before, after, resent, oplog); fault hits step 0 only"""
+    ops = SESSIONS[name]["ops"]
+    lay = c16_layout(kind, ops[0], 0)
+    model = build(lay)
+    steps = []
+    with fixed_challenge(), quiet():
+        try:
+            clf, dev, tag = open_tag(model, lay)
+        except Exception as e:
+            raise SetupError("session %s/%s: %s" % (kind, name, exc_sig(e)))
+        for i, opname in enumerate(ops):
+            op = OPS[opname]
+            step = {"op": opname, "before": model.image()}
+            steps.append(step)
+            st, ctx = attempt(lambda: op["setup"](tag))
+            if st != "ok":
+                step["exc"], step["after"], step["resent"], step["in_setup"] = ctx, model.image(), 0, True
+                continue
+            if ctx is None and opname in ("ndef_write", "ndef_write_empty", "has_changed"):
+                step["skipped"], step["after"], step["resent"] = True, model.image(), 0      # tag.ndef is None: no object
+                continue
+            logbase = len(dev.log)
+            state = {"left": fault[2] if fault and i == 0 else 0, "left2": 0}
+            dev.script = _c16_script(dev, logbase, fault if i == 0 else None, state)
+            try:
+                step["result"] = norm(op["run"](tag, ctx))
+            except Exception as e:      # noqa
+                step["exc"] = e
+            dev.script = None
+            step["after"] = model.image()
+            step["resent"] = c16_resent(dev.log[logbase:])
+            step["answered"] = sum(1 for e in dev.log[logbase:] if isinstance(e[2], bytes))
+            if i == 0:
+                step["injected"] = (fault[2] - state["left"]) if fault else 0
+    return steps
+
+
+def c16_sessions(kind, name, R, rng, full):
+    ref = c16_session_execute(kind, name, None)
+    if any("exc" in st or st.get("skipped") for st in ref):
+        R.inconc("t3t C16: the fault-free session %s/%s does not run through" % (kind, name))
+        return
+    n = ref[0]["answered"]
+    R.seen("t3t_c16_sessions_seen", "%s/%s" % (kind, name))
+    for pos in range(n):
+        plan = [("timeout", 3, "cmd_lost"), ("transmission", 99, "rsp_lost"), ("protocol", 3, "rsp_lost")]
+        if full:
+            plan = [(k, b, f) for k in sorted(KINDS) for b in (3, 99) for f in ("cmd_lost", "rsp_lost")]
+        for kname, burst, flavour in plan:
+            c16_session_judge(kind, name, ref, (pos, kname, burst, flavour), R)
+
+
+def c16_session_judge(kind, name, ref, fault, R):
+    got = c16_session_execute(kind, name, fault)
+    case = {"family": FAM, "session": name, "kind": kind, "fault": list(fault)}
+    R.case([kind, "session", name, list(fault)], nontrivial=got[0].get("injected", 0) > 0)
+    R.count("t3t_c16_session_cells")
+    if "exc" in got[0]:
+        R.count("t3t_c16_session_op1_failed")
+    sigbase = "t3t/c16/session/%s/" % name
+    for i in range(1, len(got)):
+        g, r = got[i], ref[i]
+        what = "session %s on %s, %s x%d (%s) at command %d of %s; then step %d %s on a healthy link: " % (
+            name, kind, fault[1], fault[2], fault[3], fault[0], got[0]["op"], i, g["op"])
+        if g.get("skipped"):
+            R.count("t3t_c16_session_step_without_ndef_object")
+            continue
+        R.count("t3t_c16_session_steps_judged")
+        exc = g.get("exc")
+        if exc is not None and not isinstance(exc, nfc.tag.TagCommandError):
+            R.violation(sigbase + "step%d-%s/escape/%s" % (i, g["op"], exc_sig(exc)),
+                        what + "raised %s: %s" % (type(exc).__name__, str(exc)[:100]), case)
+            continue
+        if g["resent"] > r["resent"]:
+            R.violation(sigbase + "step%d-%s/answered-command-resent" % (i, g["op"]),
+                        what + "%d Write command(s) repeat the last answered Write of their blocks (fault-free session: %d)" % (
+                            g["resent"], r["resent"]), case)
+            continue
+        if g["before"] != r["before"]:
+            R.count("t3t_c16_session_step_other_start_memory")
+            continue
+        R.count("t3t_c16_session_step_same_start_memory")
+        if exc is not None:
+            R.count("t3t_c16_session_step_tagcommanderror_on_healthy_link")       # observed, not judged
+            R.seen("t3t_c16_session_healthy_link_errors", "%s/%s/step%d-%s/errno%s" % (kind, name, i, g["op"], exc.errno))
+            continue
+        op = OPS[g["op"]]
+        if g["result"] != r["result"]:
+            if g["result"] in op["fallbacks"] or (g["op"] == "dump" and c16_dump_reports_error(g["result"], r["result"])):
+                R.count("t3t_c16_session_step_reports_failure")
+            elif (g["op"] == "ndef_read" and isinstance(g["result"], list) and isinstance(r["result"], list)
+                  and g["result"][:2] == r["result"][:2] and not C16_SESSION_STALE_FLAGS_IS_VIOLATION):
+                # same octets and capacity, other is_readable / is_writeable of the NDEF object that lived through the
+                # failure: a stale flag of the object, not a communication result - outside the statement of C16, observed
+                R.count("t3t_c16_session_obs_access_flags_differ")
+                R.seen("t3t_c16_session_obs_access_flags", "%s/%s: readable,writeable = %r, fault-free %r" % (
+                    kind, name, g["result"][2:], r["result"][2:]))
+            else:
+                R.violation(sigbase + "step%d-%s/silent-wrong-result" % (i, g["op"]),
+                            what + "returned %r, the fault-free session %r (same tag memory at the start of the step)" % (
+                                str(g["result"])[:60], str(r["result"])[:60]), case)
+            continue
+        if g["after"] != r["after"] and not op["free"]:
+            R.violation(sigbase + "step%d-%s/silent-wrong-memory" % (i, g["op"]),
+                        what + "returned the fault-free result but left another tag memory", case)
+            continue
+        R.count("t3t_c16_session_step_same_result_same_memory")
 
 
 def replay_c16(case, R):
+    if "session" in case:
+        ref = c16_session_execute(case["kind"], case["session"], None)
+        c16_session_judge(case["kind"], case["session"], ref, tuple(case["fault"]), R)
+        return
     kind, opname, variant = case["kind"], case["op"], case.get("variant", 0)
     ref = c16_execute(kind, opname, None, variant)
     if case.get("fault") is None:
@@ -1538,6 +2640,10 @@ def c16_op(kind, opname, R, rng, full, variant=0):
     ref = c16_execute(kind, opname, None, variant)
     R.seen("t3t_c16_ops_seen", "%s/%s" % (kind, opname))
     R.count("t3t_c16_ops_covered")
+    R.count("t3t_c16_pers_" + kind)
+    R.count("t3t_c16_class_" + ref["cls"])
+    if ref["cls"] != PERS_CLASS[kind]:
+        R.inconc("t3t C16: personality %s gave reader class %s, expected %s" % (kind, ref["cls"], PERS_CLASS[kind]))
     ok = c16_judge_ref(kind, opname, ref, R, variant)
     n = len(ref["answered"])
     R.max("t3t_c16_positions_per_op", n)
@@ -1553,13 +2659,27 @@ def c16_op(kind, opname, R, rng, full, variant=0):
     elif opname.startswith("format"):
         R.count("t3t_c16_format_positions_enumerated", n)
         R.seen("t3t_c16_format_sequences", "%s/%s/%d:%s" % (kind, opname, variant, _cmd_letters(ref["answered"])))
-    for pos in positions:
-        for kname in sorted(KINDS):
-            for burst in (1, 2, 3, 4):
+    light = not full and kind in KIND_BASE         # FeliCa Mobile / Plug in the quick tier: bursts 2 and 3 only
+    knames = sorted(KINDS)
+    for pi, pos in enumerate(positions):
+        for kname in knames:
+            for burst in ((2, 3) if light else (1, 2, 3, 4)):
                 for flavour in ("cmd_lost", "rsp_lost"):
                     if sampled and burst in (1, 4) and flavour == "rsp_lost":
                         continue
                     c16_judge(kind, opname, ref, (pos, kname, burst, flavour), R, variant)
+        # the error never goes away (for the rest of the operation)
+        extra = [(knames[(pi + k) % 3], ("cmd_lost", "rsp_lost")[(pi + k) % 2]) for k in range(6 if full else 1)]
+        for kname, flavour in extra:
+            c16_judge(kind, opname, ref, (pos, kname, 99, flavour), R, variant)
+        # two bursts at two command positions, each within the budget
+        later = [p for p in range(pos + 1, n)]
+        if later:
+            picks = [later[0]] + ([rng.choice(later)] if len(later) > 1 and (full or pi % 2 == 0) else [])
+            for qi, pos2 in enumerate(picks):
+                b1, b2 = ((2, 2), (1, 2), (2, 1))[(pi + qi) % 3]
+                c16_judge(kind, opname, ref, (pos, knames[(pi + qi) % 3], b1, ("cmd_lost", "rsp_lost")[(pi + qi + 1) % 2], pos2, b2),
+                          R, variant)
 
 
 def _cmd_letters(cmds):
@@ -1586,7 +2706,7 @@ def c16_judge(kind, opname, ref, fault, R, variant=0):
     always-on clause 'no silently wrong result / memory' (c16_silent)"""
     got = c16_execute(kind, opname, fault, variant)
     nv = _nviol(R)
-    if opname.startswith("format") and got["injected"] > BUDGET:
+    if opname.startswith("format") and got["beyond"]:
         # which command of the probing sequence the persistent error hit (the link is healthy again afterwards)
         word = _cmd_letters(ref["answered"])
         if fault[0] < len(word):
@@ -1673,11 +2793,12 @@ def c16_silent(kind, opname, ref, got, fault, R, variant=0):
     flags as after the fault-free format."""
     if "exc" in got or "exc" in ref or got["injected"] == 0:
         return
-    pos, kname, burst, flavour = fault
+    pos, kname, burst, flavour = fault[:4]
     op = OPS[opname]
     case = {"family": FAM, "kind": kind, "op": opname, "fault": list(fault), "variant": variant}
     sigbase = "t3t/c16/%s/" % opname
-    what = "%s on %s, %s x%d (%s) at command %d: " % (opname, kind, kname, burst, flavour, pos)
+    what = "%s on %s, %s x%d (%s) at command %d%s: " % (opname, kind, kname, burst, flavour, pos,
+                                                        " and x%d at command %d" % (fault[5], fault[4]) if len(fault) > 4 else "")
     R.count("t3t_c16_normal_returns_judged")
     res, want = got.get("result"), ref.get("result")
     if res != want:
@@ -1716,7 +2837,7 @@ def c16_silent(kind, opname, ref, got, fault, R, variant=0):
 
 
 def c16_judge_clauses(kind, opname, ref, got, fault, R, variant=0):
-    pos, kname, burst, flavour = fault
+    pos, kname, burst, flavour = fault[:4]
     op = OPS[opname]
     case = {"family": FAM, "kind": kind, "op": opname, "fault": list(fault), "variant": variant}
     R.case([kind, opname, variant, list(fault)], nontrivial=got["injected"] > 0)
@@ -1727,7 +2848,20 @@ def c16_judge_clauses(kind, opname, ref, got, fault, R, variant=0):
     errno_want = KINDS[kname][1]
     tag_err = isinstance(exc, nfc.tag.TagCommandError)
     sigbase = "t3t/c16/%s/" % opname
-    what = "%s on %s, %s x%d (%s) at command %d: " % (opname, kind, kname, burst, flavour, pos)
+    what = "%s on %s, %s x%d (%s) at command %d%s: " % (opname, kind, kname, burst, flavour, pos,
+                                                        " and x%d at command %d" % (fault[5], fault[4]) if len(fault) > 4 else "")
+    if burst == 99:
+        R.count("t3t_c16_persistent99_cells")
+        if tag_err and exc.errno == errno_want:
+            R.count("t3t_c16_persistent99_tagerror")
+    if len(fault) > 4:
+        R.count("t3t_c16_double_burst_cells")
+        if all(x > 0 for x in got["injected_by_burst"]):
+            R.count("t3t_c16_double_burst_both_hit")
+    if got["unanswered_run"] >= 50:
+        R.violation(sigbase + "retry-not-bounded", what + "the same command was attempted %d times in a row without an "
+                    "answer" % got["unanswered_run"], case)
+        return
     if exc is not None and not tag_err:
         # the same escape as in the fault-free run is one defect, reported there
         if "exc" in ref and type(ref["exc"]) is type(exc) and exc_sig(ref["exc"]) == exc_sig(exc):
@@ -1744,11 +2878,18 @@ def c16_judge_clauses(kind, opname, ref, got, fault, R, variant=0):
         ref.get("result") == got.get("result") if "exc" not in ref else
         (type(ref["exc"]) is type(exc) and getattr(ref["exc"], "errno", None) == getattr(exc, "errno", None)))
     same_mem = ref["image"] == got["image"]
-    if got["injected"] < burst or got["injected"] <= BUDGET:
-        # ---- within the retry budget (or the burst was cut short because the operation ended)
-        within = got["injected"] <= BUDGET
-    else:
-        within = False
+    # ---- within the retry budget: every burst (or what was left of it when the operation ended) <= BUDGET attempts
+    within = not got["beyond"]
+    # 'a command that was answered is not sent again', also not adjacent, also on failure paths (differential)
+    if got["injected"] > 0:
+        R.count("t3t_c16_resend_checked")
+        if not within:
+            R.count("t3t_c16_resend_checked_on_failure_path")
+        if got["resent"] > ref["resent"]:
+            R.violation(sigbase + "answered-command-resent",
+                        what + "%d Write command(s) repeat the last answered Write of their blocks, the fault-free run has %d" % (
+                            got["resent"], ref["resent"]), case)
+            return
     if within:
         if flavour == "rsp_lost" and got["lost_executed_nonidempotent"] and tag_err and exc.errno > 0xFF:
             R.count("t3t_c16_nonidempotent_macwrite")
@@ -1773,6 +2914,8 @@ def c16_judge_clauses(kind, opname, ref, got, fault, R, variant=0):
                             i, len(got["answered"]), len(ref["answered"])), case)
             return
         R.count("t3t_c16_within_ok")
+        if len(fault) > 4 and all(x > 0 for x in got["injected_by_burst"]):
+            R.count("t3t_c16_double_burst_ok")
         return
     # ---- beyond the retry budget
     if tag_err:
